@@ -2,30 +2,65 @@ import GardenVerif.Lemmas.Parse
 /-!
 C33 — Printing a syntax tree and parsing it gives the same tree.
 
-`Print.printExpr` / `Print.printItems` give the canonical source text of every tree of the model
-(all expression and statement forms and all definitions; used by the correspondence/oracle run on
-generated trees of every node kind). The machine-checked round trip below is PARTIAL: it covers the
-sub-grammar `ParseLemmas.WF` = integer literals, variables, calls with any number of arguments,
-parenthesised expressions and binary-operator chains over all 21 operators, nested to any depth.
+`Print.printExpr` / `Print.printItems` give the canonical source text of every tree of the model, as
+print tokens with explicit adjacency and newlines; `Print.lexOf` is the token list the lexer yields on
+that text (the harness checks the real lexer agrees on every generated tree).
 
-Full statement (not proved here):
-  `∀ t : Item list, WellFormedTree t → parseItems fuel (lexOf 0 (printItems t)) = ok t, no diagnostics`
-where `WellFormedTree` excludes exactly what the grammar cannot express (see harness/tree_gen.py,
-which generates under these rules, and the report): a binary operator whose right child is an
-unparenthesised operator chain or whose left child ends in an open-ended form (`let`, assignment,
-`return e`, …); receivers/callees that are not closed forms; a callee that is a dot access
-(`a.b(…)` is a method call); a dot access immediately followed in a block by an expression starting
-with `(` (the method-call parenthesis need not touch, even across lines); names that are empty,
-keywords, `Dict`, or the placeholder names; integer literals outside i64; lambdas with type
-parameters; a top-level expression starting with `fun`; duplicate parameter / destructuring names.
-Missing for the full statement: the statement forms (let/assign/if/while/for/match/try/return/
-break/continue/assert), list/tuple/dict/struct literals, lambdas, strings/floats, method calls /
-dot / `::` access, blocks and definitions — same proof pattern (`ReachAll`), not done in the time box.
+## What is proved
 
-Negative integer literals: printed as the single token `-n`; the printer never glues an operator
-to a literal (operators have a space on both sides), so `a - 1` and `a -1` (= `a` then literal `-1`)
-are never confused. `IntTok (toString i) i` (the decimal text of `i` is read back as `i`) is a
-hypothesis of `WF.int`, discharged by `decide` for concrete literals.
+Main theorem `C33.parse_print` (whole files, every node kind):
+  `∀ its, (∀ it ∈ its, WTI it) → IAdj its → ∃ N, ∀ fuel ≥ N,`
+  `  parseItems fuel (lexOf 0 (printItems its)) = ok its ⟨all tokens consumed, no diagnostics⟩`
+and, for use inside other contexts, `parse_print_stmt` (one expression / statement in any token
+context), `parse_print_stmt_whole`, `parse_print_block`.  `demo_roundtrip` instantiates the main theorem
+on a program with every item kind and most node kinds (`demo_wf` shows the hypotheses are satisfiable).
+
+Covered constructors (`RT.WT`, `RT.WTI`): EVERY constructor of `Expr` except `invalid` —
+intLit, floatLit, strLit, var, binop, call, mcall, dot, ns, letE (symbol and destructuring
+destinations, optional type hint), assign, update (`+=`/`-=`), ifE (with and without `else`; an
+`else if` is the same position-free tree as `else { if … }`, which is what the printer emits),
+whileE, forIn (symbol and destructuring), matchE (patterns with and without payload, payload a symbol or
+a destructuring), tryE, ret (with and without value), brk, cont, list, tuple (0, 1, n elements), dict,
+structLit, lambda, assertE, paren — and EVERY constructor of `Item` — func, method, test, enum, struct,
+importI (with and without alias), expr, block — with type hints of any nesting (`Name`, `Name<…>`,
+tuple hints), type parameters, parameters with optional hints, visibility.
+
+`WT` / `WTI` / `IAdj` are meant to be exactly the trees the concrete syntax can express (we know of no
+expressible tree they exclude).  Their side conditions, each of them something the grammar cannot
+express or reads differently:
+* names are `ParseLemmas.ValidName` (symbol tokens that are not keywords, `Dict`, or the parser's
+  placeholder names); a named type hint is not called `Tuple`; integer literals are i64
+  (`ParseLemmas.I64`; `intTok_of_i64` proves the decimal text of every i64 reads back as that value);
+  float literals are `RT.FloatTok` texts (`digits.digits`, optional `-`, no `_`); `update`'s operator is
+  `+=` or `-=`; binary operators are the 21 of `gardenBinaryOps`; strings are arbitrary (`unescape ∘
+  escape = id` is proved: `RT.unescapeTok_strTok`);
+* positions (`RT.Kind`): receivers, callees and right operands of binary operators are closed forms
+  (`closed`), left operands are chains (`chain`); `let`, assignments and `return` (`stmt`) are complete
+  expressions (`full`) and may also be the right operand of the LAST operator of a chain (`a + x = 1`,
+  `WT.binopStmt`), not of an inner one; a callee does not end in a dot access (`a.b(…)` is a method
+  call).  A bare `return` may end any complete expression, also inside arguments, lists, conditions
+  (`f(return)`): the printer then puts a newline before the separator, which the token-shape lemmas
+  track (`T_then_g`);
+* parameter / destructuring names are not repeated (`RT.dupFree`, as the parser's diagnostics see
+  them: `_` may repeat); lambdas have no type parameters; a top-level expression does not start with
+  `fun`, `method`, `test`, `enum`, `struct`, `public`, `import` (`RT.defKw`);
+* `RT.Adj` / `RT.IAdj`: in a block / at top level, an expression that ends in a dot access is not
+  followed by one starting with `(` (the method-call parenthesis need not touch, even across lines).
+
+## Structure
+
+`namespace C33` (first part): the earlier operator/call/parenthesis fragment over `ParseLemmas.WF`
+(`parse_print_partial`, `parse_print_whole_partial`; C03 uses the same lemmas).
+`namespace RT`: the development — total-correctness triples `Ok`, token views `D`, the operand
+invariant `R` (continuation-passing: from the first token of `e` the parser gets into the trailing loop
+holding `e`), the complete-expression invariants `FU` / `FS`, print facts `PF`, one lemma per node kind
+(`r_*`, `fu_*`, `pf_*`), per item kind (`item_*`), the loops (`comma_ok`, `blockLoop_ok`, `matchLoop_ok`,
+`itemsLoop_ok`, …), `wt_all` (induction over `WT`) and `wti_ok`.
+`namespace C33` (second part): the theorems named above.
+
+Negative integer literals: printed as the single token `-n`; the printer never glues an operator to a
+literal (operators have a space on both sides), so `a - 1` and `a -1` (= `a` then literal `-1`) are
+never confused.
 -/
 
 namespace C33
@@ -244,6 +279,7 @@ def endsDot : Expr → Bool
 /-- Does `e` end in a bare `return` (then the next token must be on a later line)? -/
 def tailRet : Expr → Bool
   | .ret none => true
+  | .binop _ _ r => tailRet r
   | .ret (some e) => tailRet e
   | .letE _ _ e => tailRet e
   | .assign _ e => tailRet e
@@ -310,6 +346,15 @@ theorem R.mono {c e n m} (h : R c e n) (hnm : n ≤ m) : R c e m := by
 theorem FU.mono {e n m} (h : FU e n) (hnm : n ≤ m) : FU e m := by
   intro fuel ln first i rest d toks hf hD hs
   exact h fuel ln first i rest d toks (by omega) hD hs
+
+/-- Statement invariant: like `FU`, for both settings of the infix flag (a `let`, assignment or `return`
+may also be the right operand of the last operator of a chain: `a + x = 1`). -/
+def FS (e : Expr) (n : Nat) : Prop :=
+  ∀ (b : Bool) (fuel ln : Nat) (first : Bool) (i : Nat) (rest : List Tok) (d : List DiagKind) (toks : Toks),
+    n ≤ fuel → D toks i (T ln first e ++ rest) → Stop e ln rest →
+    Ok (parseExpressionT toks false b fuel) ⟨i, d⟩ (Res1 e (i + (T ln first e).length) d)
+
+theorem FS.fu {e n} (h : FS e n) : FU e n := h true
 
 /-- The trailing loop stops at a `Stop` context. -/
 theorem trailing_stop' (toks : Toks) (b : Bool) (fuel j : Nat) (d : List DiagKind) (pe : PExpr) (e : Expr) (ln : Nat)
@@ -409,6 +454,22 @@ theorem PF.nlc {e : Expr} (h : PF e) (first : Bool) : nlc (printExpr first e) = 
 theorem T_then {e : Expr} (h : PF e) (ht : tailRet e = false) (ln : Nat) (first : Bool) (B : List PTok) :
     lexAux false ln (printExpr first e ++ B) = T ln first e ++ lexAux false (ln + pnl e) B := by
   rw [lexAux_append, h.fl, ht, h.nlc]; rfl
+
+theorem T_then' {e : Expr} (h : PF e) (ln : Nat) (first : Bool) (B : List PTok) :
+    lexAux false ln (printExpr first e ++ B) = T ln first e ++ lexAux (tailRet e) (ln + pnl e) B := by
+  rw [lexAux_append, h.fl, h.nlc]; rfl
+
+/-- Tokens of `A ++ s B` (`s` not glued): the line of `s` and its flag do not depend on how `e` ends. -/
+theorem T_then_w {e : Expr} (h : PF e) (ln : Nat) (first : Bool) (s : String) (B : List PTok) :
+    lexAux false ln (printExpr first e ++ (PTok.t s false :: B)) =
+      T ln first e ++ tk s false (ln + pnl e) :: lexAux false (ln + pnl e) B := by
+  rw [T_then' h, lexAux_tok]; simp
+
+/-- Tokens of `A ++ s B` (`s` glued): after a bare `return` the newline un-glues `s`. -/
+theorem T_then_g {e : Expr} (h : PF e) (ln : Nat) (first : Bool) (s : String) (B : List PTok) :
+    lexAux false ln (printExpr first e ++ (PTok.t s true :: B)) =
+      T ln first e ++ tk s (!tailRet e) (ln + pnl e) :: lexAux false (ln + pnl e) B := by
+  rw [T_then' h, lexAux_tok]; simp
 
 theorem T_head {e : Expr} (h : PF e) (ln : Nat) (first : Bool) :
     ∃ s tl, T ln first e = tk s first ln :: tl ∧ s ∉ badFirst := by
@@ -566,23 +627,33 @@ theorem stop_sep {e : Expr} {ln : Nat} {x : String} {tt : Bool} {lt : Nat} {rest
   simp at h; subst h
   rcases hx with rfl | rfl | rfl | rfl | rfl <;> simp [ht] <;> decide
 
+theorem stop_sep' {e : Expr} {ln : Nat} {x : String} {tt : Bool} {lt : Nat} {rest : List Tok}
+    (hx : x = "," ∨ x = ")" ∨ x = "]" ∨ x = "}" ∨ x = "=>") (hl : ln + pnl e ≤ lt) :
+    Stop e ln (tk x tt lt :: rest) := by
+  intro t h
+  simp at h; subst h
+  simp only [tk_text, tk_touch, tk_line]
+  rcases hx with rfl | rfl | rfl | rfl | rfl <;>
+    exact ⟨by decide, by decide, by decide, by simp, fun _ => by decide, by simp, by decide, by decide, by decide,
+      fun _ => hl, by decide⟩
+
 theorem not_badFirst {s x : String} (h : s ∉ badFirst) (hx : x ∈ badFirst) : (s == x) = false := by
   cases hb : (s == x) with
   | false => rfl
   | true => have : s = x := by simpa using hb
             subst this; exact absurd hx h
 
-theorem comma_ok (args : List Expr) (hfu : ∀ a ∈ args, ∃ n, FU a n) (hpf : ∀ a ∈ args, PF a ∧ tailRet a = false) :
+theorem comma_ok (args : List Expr) (hfu : ∀ a ∈ args, ∃ n, FU a n) (hpf : ∀ a ∈ args, PF a) :
     ∃ N, ∀ (fuel ln : Nat) (first : Bool) (i : Nat) (rest : List Tok) (d : List DiagKind) (toks : Toks)
       (acc : List Expr) (ol : Nat) (term : String) (tt : Bool) (lt : Nat),
-      N ≤ fuel → (term = ")" ∨ term = "]") →
+      N ≤ fuel → (term = ")" ∨ term = "]") → ln + nlc (printArgs first args) ≤ lt →
       D toks i (lexAux false ln (printArgs first args) ++ tk term tt lt :: rest) →
       Ok (commaSep toks false fuel ol term acc) ⟨i, d⟩
         (fun r s' => r = acc ++ args ∧ s' = ⟨i + (lexAux false ln (printArgs first args)).length, d⟩) := by
   induction args with
   | nil =>
     refine ⟨1, ?_⟩
-    intro fuel ln first i rest d toks acc ol term tt lt hf hterm hD
+    intro fuel ln first i rest d toks acc ol term tt lt hf hterm hline hD
     obtain ⟨f, rfl⟩ : ∃ f, fuel = f + 1 := ⟨fuel - 1, by omega⟩
     simp only [printArgs, lexAux, List.nil_append] at hD ⊢
     have h0 := hD.head
@@ -591,10 +662,10 @@ theorem comma_ok (args : List Expr) (hfu : ∀ a ∈ args, ∃ n, FU a n) (hpf :
     simp [h0]
   | cons a rest' ih =>
     obtain ⟨na, hna⟩ := hfu a (List.mem_cons_self ..)
-    obtain ⟨pa, ta⟩ := hpf a (List.mem_cons_self ..)
+    have pa := hpf a (List.mem_cons_self ..)
     obtain ⟨N', hN'⟩ := ih (fun x hx => hfu x (List.mem_cons_of_mem _ hx)) (fun x hx => hpf x (List.mem_cons_of_mem _ hx))
     refine ⟨na + N' + 2, ?_⟩
-    intro fuel ln first i rest d toks acc ol term tt lt hf hterm hD
+    intro fuel ln first i rest d toks acc ol term tt lt hf hterm hline hD
     obtain ⟨f, rfl⟩ : ∃ f, fuel = f + 1 := ⟨fuel - 1, by omega⟩
     obtain ⟨s0, tl0, hT0, hbad⟩ := T_head pa ln first
     have hterm_bad : term ∈ badFirst := by rcases hterm with rfl | rfl <;> decide
@@ -607,8 +678,11 @@ theorem comma_ok (args : List Expr) (hfu : ∀ a ∈ args, ∃ n, FU a n) (hpf :
       rw [hP] at hD ⊢
       have h0 : toks[i]? = some (tk s0 first ln) := by
         have := hD.head?; rw [hT0] at this; simpa using this
+      have hline' : ln + pnl a ≤ lt := by
+        have : nlc (printArgs first [a]) = pnl a := by simp [printArgs, pa.nlc]
+        omega
       have hres := hna f ln first i (tk term tt lt :: rest) d toks (by omega) hD
-        (stop_sep (by rcases hterm with rfl | rfl <;> simp) ta)
+        (stop_sep' (by rcases hterm with rfl | rfl <;> simp) hline')
       have hclose := hD.skip.head
       rw [commaSep]
       oksimp
@@ -621,23 +695,26 @@ theorem comma_ok (args : List Expr) (hfu : ∀ a ∈ args, ∃ n, FU a n) (hpf :
       oksimp
       simp
     | cons a2 r2 =>
+      have hpa : printArgs first (a :: a2 :: r2) = printExpr first a ++ (PTok.t "," true :: printArgs false (a2 :: r2)) := by
+        simp [printArgs, g]
       have hP : lexAux false ln (printArgs first (a :: a2 :: r2)) =
-          T ln first a ++ tk "," true (ln + pnl a) :: lexAux false (ln + pnl a) (printArgs false (a2 :: r2)) := by
-        have hpa : printArgs first (a :: a2 :: r2) = printExpr first a ++ ([g ","] ++ printArgs false (a2 :: r2)) := by
-          simp [printArgs]
-        rw [hpa, T_then pa ta]
-        simp [lexAux, tk, g]
+          T ln first a ++ tk "," (!tailRet a) (ln + pnl a) :: lexAux false (ln + pnl a) (printArgs false (a2 :: r2)) := by
+        rw [hpa, T_then_g pa]
+      have hline' : ln + pnl a + nlc (printArgs false (a2 :: r2)) ≤ lt := by
+        have : nlc (printArgs first (a :: a2 :: r2)) = pnl a + nlc (printArgs false (a2 :: r2)) := by
+          rw [hpa, nlc_append, pa.nlc]; rfl
+        omega
       rw [hP] at hD ⊢
-      have hD' : D toks i (T ln first a ++ (tk "," true (ln + pnl a) ::
+      have hD' : D toks i (T ln first a ++ (tk "," (!tailRet a) (ln + pnl a) ::
           (lexAux false (ln + pnl a) (printArgs false (a2 :: r2)) ++ tk term tt lt :: rest))) := by
         simpa [List.append_assoc] using hD
       have h0 : toks[i]? = some (tk s0 first ln) := by
         have := hD'.head?; rw [hT0] at this; simpa using this
-      have hres := hna f ln first i _ d toks (by omega) hD' (stop_sep (Or.inl rfl) ta)
+      have hres := hna f ln first i _ d toks (by omega) hD' (stop_sep' (Or.inl rfl) (Nat.le_refl _))
       have hD1 := hD'.skip
       have hcomma := hD1.head
       have hrec := hN' f (ln + pnl a) false (i + (T ln first a).length + 1) rest d toks (acc ++ [a]) ol term tt lt
-        (by omega) hterm hD1.tail
+        (by omega) hterm hline' hD1.tail
       rw [commaSep]
       oksimp
       simp only [h0, tk_text, hne, Bool.false_eq_true, ↓reduceIte]
@@ -656,38 +733,42 @@ theorem comma_ok (args : List Expr) (hfu : ∀ a ∈ args, ∃ n, FU a n) (hpf :
 def TA (ln : Nat) (first : Bool) (args : List Expr) : List Tok := lexAux false ln (printArgs first args)
 def pnlA (args : List Expr) : Nat := nlc (printArgs false args)
 
-theorem args_facts (args : List Expr) (hpf : ∀ a ∈ args, PF a ∧ tailRet a = false) :
-    ∀ first, fl false (printArgs first args) = false ∧ nlc (printArgs first args) = pnlA args := by
+/-- does the text of the arguments end in a newline (the last one ends in a bare `return`)? -/
+def flA (args : List Expr) : Bool := fl false (printArgs false args)
+
+theorem args_facts (args : List Expr) (hpf : ∀ a ∈ args, PF a) :
+    ∀ first, fl false (printArgs first args) = flA args ∧ nlc (printArgs first args) = pnlA args := by
   induction args with
-  | nil => intro first; simp [printArgs, fl, nlc, pnlA]
+  | nil => intro first; simp [printArgs, fl, nlc, pnlA, flA]
   | cons a r ih =>
-    obtain ⟨pa, ta⟩ := hpf a (List.mem_cons_self ..)
+    have pa := hpf a (List.mem_cons_self ..)
     have ih' := ih (fun x hx => hpf x (List.mem_cons_of_mem _ hx))
     intro first
     cases r with
-    | nil => simp [printArgs, pnlA, pa.fl, ta, pa.nlc]
+    | nil => simp [printArgs, pnlA, flA, pa.fl, pa.nlc]
     | cons a2 r2 =>
       have hpa : ∀ f, printArgs f (a :: a2 :: r2) = printExpr f a ++ ([g ","] ++ printArgs false (a2 :: r2)) := by
         intro f; simp [printArgs]
-      simp only [hpa, pnlA, fl_append, nlc_append, pa.fl, ta, pa.nlc, g, fl, nlc, (ih' false).1]
+      simp only [hpa, pnlA, flA, fl_append, nlc_append, pa.fl, pa.nlc, g, fl, nlc]
       simp
 
-theorem TA_then (args : List Expr) (hpf : ∀ a ∈ args, PF a ∧ tailRet a = false) (ln : Nat) (first : Bool) (B : List PTok) :
-    lexAux false ln (printArgs first args ++ B) = TA ln first args ++ lexAux false (ln + pnlA args) B := by
+theorem TA_then (args : List Expr) (hpf : ∀ a ∈ args, PF a) (ln : Nat) (first : Bool) (B : List PTok) :
+    lexAux false ln (printArgs first args ++ B) = TA ln first args ++ lexAux (flA args) (ln + pnlA args) B := by
   rw [lexAux_append, (args_facts args hpf first).1, (args_facts args hpf first).2]; rfl
 
-theorem callArgs_ok (args : List Expr) (hfu : ∀ a ∈ args, ∃ n, FU a n) (hpf : ∀ a ∈ args, PF a ∧ tailRet a = false) :
+theorem callArgs_ok (args : List Expr) (hfu : ∀ a ∈ args, ∃ n, FU a n) (hpf : ∀ a ∈ args, PF a) :
     ∃ N, ∀ (fuel ln : Nat) (i : Nat) (rest : List Tok) (d : List DiagKind) (toks : Toks) (t1 t2 : Bool) (l0 l2 : Nat),
-      N ≤ fuel → D toks i (tk "(" t1 l0 :: (TA ln true args ++ tk ")" t2 l2 :: rest)) →
+      N ≤ fuel → ln + pnlA args ≤ l2 → D toks i (tk "(" t1 l0 :: (TA ln true args ++ tk ")" t2 l2 :: rest)) →
       Ok (parseCallArguments toks false fuel) ⟨i, d⟩
         (fun r s' => r.1 = args ∧ r.2.endPos = i + 1 + (TA ln true args).length + 1 ∧
           s' = ⟨i + 1 + (TA ln true args).length + 1, d⟩) := by
   obtain ⟨N, hN⟩ := comma_ok args hfu hpf
   refine ⟨N + 1, ?_⟩
-  intro fuel ln i rest d toks t1 t2 l0 l2 hf hD
+  intro fuel ln i rest d toks t1 t2 l0 l2 hf hline hD
   obtain ⟨f, rfl⟩ : ∃ f, fuel = f + 1 := ⟨fuel - 1, by omega⟩
   have h0 := hD.head
-  have hargs := hN f ln true (i + 1) rest d toks [] l0 ")" t2 l2 (by omega) (Or.inl rfl) hD.tail
+  have hargs := hN f ln true (i + 1) rest d toks [] l0 ")" t2 l2 (by omega) (Or.inl rfl)
+    (by rw [(args_facts args hpf true).2]; exact hline) hD.tail
   have hclose := hD.tail.skip.head
   rw [parseCallArguments]
   oksimp
@@ -705,13 +786,13 @@ theorem callArgs_ok (args : List Expr) (hfu : ∀ a ∈ args, ∃ n, FU a n) (hp
 
 theorem r_call {f : Expr} {args : List Expr} {nf : Nat} (hf : R true f nf) (pf : PF f) (tf : tailRet f = false)
     (hnd : endsDot f = false)
-    (hfu : ∀ a ∈ args, ∃ n, FU a n) (hpf : ∀ a ∈ args, PF a ∧ tailRet a = false) :
+    (hfu : ∀ a ∈ args, ∃ n, FU a n) (hpf : ∀ a ∈ args, PF a) :
     ∃ n, R true (.call f args) n := by
   obtain ⟨N, hN⟩ := callArgs_ok args hfu hpf
   refine ⟨nf + N + 2, ?_⟩
   intro b fuel ln first i rest d toks Q _ hfu' hD hfo _ ha
   have hT : T ln first (.call f args) = T ln first f ++ tk "(" true (ln + pnl f) ::
-      (TA (ln + pnl f) true args ++ [tk ")" true (ln + pnl f + pnlA args)]) := by
+      (TA (ln + pnl f) true args ++ [tk ")" (!flA args) (ln + pnl f + pnlA args)]) := by
     simp only [T, printExpr]
     rw [List.append_assoc, List.append_assoc, T_then pf tf]
     simp only [List.cons_append, List.nil_append, lexAux_tok, g, Bool.and_true, Bool.not_false]
@@ -719,7 +800,7 @@ theorem r_call {f : Expr} {args : List Expr} {nf : Nat} (hf : R true f nf) (pf :
     simp [lexAux, tk, T]
   rw [hT] at hD ha
   have hD' : D toks i (T ln first f ++ (tk "(" true (ln + pnl f) ::
-      (TA (ln + pnl f) true args ++ tk ")" true (ln + pnl f + pnlA args) :: rest))) := by
+      (TA (ln + pnl f) true args ++ tk ")" (!flA args) (ln + pnl f + pnlA args) :: rest))) := by
     simpa [List.append_assoc] using hD
   refine hf b fuel ln first i _ d toks Q (fun h => by cases h) (by omega) hD' ?_ (fun h => by cases h) ?_
   · intro t ht; simp at ht; subst ht; simp [hnd]
@@ -727,7 +808,7 @@ theorem r_call {f : Expr} {args : List Expr} {nf : Nat} (hf : R true f nf) (pf :
     obtain ⟨k, rfl⟩ : ∃ k, fuel' = k + 1 := ⟨fuel' - 1, by omega⟩
     have hD1 := hD'.skip
     have h0 := hD1.head
-    have hca := hN k (ln + pnl f) (i + (T ln first f).length) rest d toks true true _ _ (by omega) hD1
+    have hca := hN k (ln + pnl f) (i + (T ln first f).length) rest d toks true _ _ _ (by omega) (Nat.le_refl _) hD1
     rw [trailing]
     oksimp
     simp only [h0, Option.map_some, TokI.text, tk_text, tk_touch, beq_self_eq_true, Bool.and_self, ↓reduceIte]
@@ -740,10 +821,10 @@ theorem r_call {f : Expr} {args : List Expr} {nf : Nat} (hf : R true f nf) (pf :
     have := ha ln' k (by omega)
     have e1 : max (i + (T ln first f).length) (i + (T ln first f).length + 1 + (TA (ln + pnl f) true args).length + 1)
         = i + (T ln first f ++ tk "(" true (ln + pnl f) ::
-          (TA (ln + pnl f) true args ++ [tk ")" true (ln + pnl f + pnlA args)])).length := by simp; omega
+          (TA (ln + pnl f) true args ++ [tk ")" (!flA args) (ln + pnl f + pnlA args)])).length := by simp; omega
     have e2 : i + (T ln first f).length + 1 + (TA (ln + pnl f) true args).length + 1
         = i + (T ln first f ++ tk "(" true (ln + pnl f) ::
-          (TA (ln + pnl f) true args ++ [tk ")" true (ln + pnl f + pnlA args)])).length := by simp; omega
+          (TA (ln + pnl f) true args ++ [tk ")" (!flA args) (ln + pnl f + pnlA args)])).length := by simp; omega
     rw [e1, e2]
     exact this
 
@@ -767,23 +848,23 @@ theorem enter_simple {toks : Toks} {b : Bool} {f i : Nat} {d : List DiagKind} {t
     Ok (parseExpressionT toks false b (f + 2)) ⟨i, d⟩ Q :=
   ok_exprT' (ok_rw (noTrailing_simple toks f i d t h0 hkw h2) h)
 
-theorem r_paren {e : Expr} {n : Nat} (he : FU e n) (pe : PF e) (te : tailRet e = false) :
+theorem r_paren {e : Expr} {n : Nat} (he : FU e n) (pe : PF e) :
     R true (.paren e) (n + 4) := by
   intro b fuel ln first i rest d toks Q _ hfu hD hfo _ ha
   obtain ⟨f, rfl⟩ : ∃ f, fuel = f + 4 := ⟨fuel - 4, by omega⟩
-  have hT : T ln first (.paren e) = tk "(" first ln :: (T ln true e ++ [tk ")" true (ln + pnl e)]) := by
+  have hT : T ln first (.paren e) = tk "(" first ln :: (T ln true e ++ [tk ")" (!tailRet e) (ln + pnl e)]) := by
     simp only [T, printExpr, List.cons_append, List.nil_append, lexAux_tok, Bool.not_false, Bool.and_true]
-    rw [T_then pe te]
-    simp [lexAux, tk, g, T]
+    rw [show [g ")"] = [PTok.t ")" true] from rfl, T_then_g pe]
+    simp [lexAux, tk, T]
   rw [hT] at hD ha
-  have hD0 : D toks i (tk "(" first ln :: (T ln true e ++ (tk ")" true (ln + pnl e) :: rest))) := by
+  have hD0 : D toks i (tk "(" first ln :: (T ln true e ++ (tk ")" (!tailRet e) (ln + pnl e) :: rest))) := by
     simpa [List.append_assoc] using hD
   have h0 := hD0.head
   have hD1 := hD0.tail
   obtain ⟨s1, tl1, hT1, hbad⟩ := T_head pe ln true
   have h1 : toks[i + 1]? = some (tk s1 true ln) := by
     have := hD1.head?; rw [hT1] at this; simpa using this
-  have hin := he f ln true (i + 1) _ d toks (by omega) hD1 (stop_sep (Or.inr (Or.inl rfl)) te)
+  have hin := he f ln true (i + 1) _ d toks (by omega) hD1 (stop_sep' (Or.inr (Or.inl rfl)) (Nat.le_refl _))
   have hclose := hD1.skip.head
   refine enter_simple (f := f + 2) h0 (by simp [stmtKeywords]) (fun t2 h2 => ?_) ?_
   · rw [h1] at h2; cases h2; exact bad_second hbad
@@ -799,9 +880,9 @@ theorem r_paren {e : Expr} {n : Nat} (he : FU e n) (pe : PF e) (te : tailRet e =
     have := ha ln (f + 3) (by omega)
     simp only [hr1, TokI.pos, Pos.merge, tk_line]
     have e1 : max (i + 1) (i + 1 + (T ln true e).length + 1)
-        = i + (tk "(" first ln :: (T ln true e ++ [tk ")" true (ln + pnl e)])).length := by simp; omega
+        = i + (tk "(" first ln :: (T ln true e ++ [tk ")" (!tailRet e) (ln + pnl e)])).length := by simp; omega
     have e2 : i + 1 + (T ln true e).length + 1
-        = i + (tk "(" first ln :: (T ln true e ++ [tk ")" true (ln + pnl e)])).length := by simp; omega
+        = i + (tk "(" first ln :: (T ln true e ++ [tk ")" (!tailRet e) (ln + pnl e)])).length := by simp; omega
     rw [e1, e2]
     exact this
 
@@ -1021,19 +1102,19 @@ theorem r_cont : R true .cont 2 := by
   exact ok_exprT this (ha ln (f + 1) (by omega))
 
 /-- Finish a complete expression whose head parser has returned: the trailing loop stops. -/
-theorem fu_finish {toks : Toks} {f i j : Nat} {d : List DiagKind} {e : Expr} {ln : Nat} {rest : List Tok}
+theorem fu_finish {toks : Toks} {b : Bool} {f i j : Nat} {d : List DiagKind} {e : Expr} {ln : Nat} {rest : List Tok}
     (h : Ok (parseNoTrailing toks false (f + 1)) ⟨i, d⟩ (Res1 e j d)) (hD : D toks j rest) (hs : Stop e ln rest) :
-    Ok (parseExpressionT toks false true (f + 2)) ⟨i, d⟩ (Res1 e j d) := by
+    Ok (parseExpressionT toks false b (f + 2)) ⟨i, d⟩ (Res1 e j d) := by
   refine ok_exprT' (ok_mono h ?_)
   rintro pe s1 ⟨h1, h2, rfl⟩
-  exact ok_of_eq (trailing_stop' toks true f j d pe e ln rest hD hs) ⟨h1, h2, rfl⟩
+  exact ok_of_eq (trailing_stop' toks b f j d pe e ln rest hD hs) ⟨h1, h2, rfl⟩
 
 theorem stop_second {e : Expr} {ln : Nat} {rest : List Tok} (hs : Stop e ln rest) :
     ∀ t2, rest.head? = some t2 → t2.text ≠ "=" ∧ t2.text ≠ "+=" ∧ t2.text ≠ "-=" := by
   intro t2 h2; have := hs t2 h2; exact ⟨this.1, this.2.1, this.2.2.1⟩
 
-theorem fu_ret_none : FU (.ret none) 3 := by
-  intro fuel ln first i rest d toks hf hD hs
+theorem fu_ret_none : FS (.ret none) 3 := by
+  intro b fuel ln first i rest d toks hf hD hs
   obtain ⟨f, rfl⟩ : ∃ f, fuel = f + 3 := ⟨fuel - 3, by omega⟩
   have hT : T ln first (.ret none) = [tk "return" first ln] := by simp [T, printExpr, lexAux, tk]
   rw [hT] at hD ⊢
@@ -1060,8 +1141,8 @@ theorem fu_ret_none : FU (.ret none) 3 := by
       simp; omega
     simp [h1', hne, ok_pure, Res1, TokI.pos]
 
-theorem fu_ret_some {e : Expr} {n : Nat} (he : FU e n) (pe : PF e) : FU (.ret (some e)) (n + 3) := by
-  intro fuel ln first i rest d toks hf hD hs
+theorem fu_ret_some {e : Expr} {n : Nat} (he : FU e n) (pe : PF e) : FS (.ret (some e)) (n + 3) := by
+  intro b fuel ln first i rest d toks hf hD hs
   obtain ⟨f, rfl⟩ : ∃ f, fuel = f + 3 := ⟨fuel - 3, by omega⟩
   have hT : T ln first (.ret (some e)) = tk "return" first ln :: T ln false e := by
     simp [T, printExpr, lexAux, tk]
@@ -1110,6 +1191,28 @@ theorem stop_lbrace {e : Expr} {ln : Nat} {l2 : Nat} {rest : List Tok} (ht : tai
   refine ⟨by decide, by decide, by decide, by simp, fun _ => by decide, by simp, by decide, by decide, by decide,
     (fun h => by rw [ht] at h; cases h), by decide⟩
 
+theorem stop_lbrace' {e : Expr} {ln : Nat} {l2 : Nat} {rest : List Tok} (hl : ln + pnl e ≤ l2) :
+    Stop e ln (tk "{" false l2 :: rest) := by
+  intro t h
+  simp at h; subst h
+  simp only [tk_text, tk_touch, tk_line]
+  exact ⟨by decide, by decide, by decide, by simp, fun _ => by decide, by simp, by decide, by decide, by decide,
+    fun _ => hl, by decide⟩
+
+theorem T_then_block {e : Expr} (h : PF e) (ln : Nat) (first : Bool) (b : Block) (B : List PTok) :
+    lexAux false ln (printExpr first e ++ (printBlock b ++ B)) =
+      T ln first e ++ lexAux false (ln + pnl e) (printBlock b ++ B) := by
+  cases b with
+  | mk es =>
+    simp only [printBlock, List.cons_append, List.nil_append, w]
+    rw [T_then_w h, lexAux_tok]
+    simp [tk]
+
+theorem T_then_block0 {e : Expr} (h : PF e) (ln : Nat) (first : Bool) (b : Block) :
+    lexAux false ln (printExpr first e ++ printBlock b) = T ln first e ++ lexAux false (ln + pnl e) (printBlock b) := by
+  have := T_then_block h ln first b []
+  simpa using this
+
 theorem stop_tail {e' e : Expr} {ln : Nat} {rest : List Tok} (hs : Stop e' ln rest)
     (h1 : endsDot e' = endsDot e) (h2 : tailRet e' = tailRet e) (h3 : pnl e' = pnl e) : Stop e ln rest := by
   intro t ht
@@ -1118,8 +1221,8 @@ theorem stop_tail {e' e : Expr} {ln : Nat} {rest : List Tok} (hs : Stop e' ln re
   exact this
 
 theorem fu_let {x : String} {e : Expr} {n : Nat} (hx : ValidName x) (he : FU e n) (pe : PF e) :
-    FU (.letE (.sym x) none e) (n + 3) := by
-  intro fuel ln first i rest d toks hf hD hs
+    FS (.letE (.sym x) none e) (n + 3) := by
+  intro b fuel ln first i rest d toks hf hD hs
   obtain ⟨f, rfl⟩ : ∃ f, fuel = f + 3 := ⟨fuel - 3, by omega⟩
   have hT : T ln first (.letE (.sym x) none e) = tk "let" first ln :: tk x false ln :: tk "=" false ln :: T ln false e := by
     simp [T, printExpr, printDest, printHintOpt, lexAux, tk, w]
@@ -1162,8 +1265,8 @@ theorem fu_let {x : String} {e : Expr} {n : Nat} (hx : ValidName x) (he : FU e n
   omega
 
 theorem fu_assign {x : String} {e : Expr} {n : Nat} (hx : ValidName x) (he : FU e n) (pe : PF e) :
-    FU (.assign x e) (n + 3) := by
-  intro fuel ln first i rest d toks hf hD hs
+    FS (.assign x e) (n + 3) := by
+  intro b fuel ln first i rest d toks hf hD hs
   obtain ⟨f, rfl⟩ : ∃ f, fuel = f + 3 := ⟨fuel - 3, by omega⟩
   have hT : T ln first (.assign x e) = tk x first ln :: tk "=" false ln :: T ln false e := by
     simp [T, printExpr, lexAux, tk, w]
@@ -1192,8 +1295,8 @@ theorem fu_assign {x : String} {e : Expr} {n : Nat} (hx : ValidName x) (he : FU 
   omega
 
 theorem fu_update {op x : String} {e : Expr} {n : Nat} (hop : op = "+=" ∨ op = "-=") (hx : ValidName x)
-    (he : FU e n) (pe : PF e) : FU (.update op x e) (n + 3) := by
-  intro fuel ln first i rest d toks hf hD hs
+    (he : FU e n) (pe : PF e) : FS (.update op x e) (n + 3) := by
+  intro b fuel ln first i rest d toks hf hD hs
   obtain ⟨f, rfl⟩ : ∃ f, fuel = f + 3 := ⟨fuel - 3, by omega⟩
   have hT : T ln first (.update op x e) = tk x first ln :: tk op false ln :: T ln false e := by
     simp [T, printExpr, lexAux, tk, w]
@@ -1240,7 +1343,7 @@ structure BlockOK (es : List Expr) : Prop where
   pf : ∀ e ∈ es, PF e
   adj : Adj es
 
-theorem r_while {c : Expr} {es : List Expr} {nc : Nat} (hc : FU c nc) (pc : PF c) (tc : tailRet c = false)
+theorem r_while {c : Expr} {es : List Expr} {nc : Nat} (hc : FU c nc) (pc : PF c) 
     (hb : BlockOK es) : ∃ n, R true (.whileE c (.mk es)) n := by
   obtain ⟨NB, hNB⟩ := block_ok es hb.fu hb.pf hb.adj
   refine ⟨nc + NB + 3, ?_⟩
@@ -1249,7 +1352,7 @@ theorem r_while {c : Expr} {es : List Expr} {nc : Nat} (hc : FU c nc) (pc : PF c
   have hT : T ln first (.whileE c (.mk es)) = tk "while" first ln :: (T ln false c ++
       tk "{" false (ln + pnl c) :: (TItems (ln + pnl c) es ++ [tk "}" false (LItems (ln + pnl c) es + 1)])) := by
     simp only [T, printExpr, List.cons_append, List.nil_append, lexAux_tok, Bool.not_false, Bool.and_true]
-    rw [T_then pc tc]
+    rw [T_then_block0 pc]
     have := TB_eq es hb.pf (ln + pnl c) []
     simp only [List.append_nil] at this
     rw [this]
@@ -1263,7 +1366,7 @@ theorem r_while {c : Expr} {es : List Expr} {nc : Nat} (hc : FU c nc) (pc : PF c
   obtain ⟨s1, tl1, hT1, hbad⟩ := T_head pc ln false
   have h1 : toks[i + 1]? = some (tk s1 false ln) := by
     have := hD1.head?; rw [hT1] at this; simpa using this
-  have hcond := hc f ln false (i + 1) _ d toks (by omega) hD1 (stop_lbrace tc)
+  have hcond := hc f ln false (i + 1) _ d toks (by omega) hD1 (stop_lbrace' (Nat.le_refl _))
   have hblock := hNB f (ln + pnl c) (i + 1 + (T ln false c).length) rest d toks false (by omega) hD1.skip
   refine ok_exprT' (ok_rw ((nt_kw toks (f + 1) i d _ h0 (fun t2 h2 => by
     rw [h1] at h2; cases h2; exact bad_second hbad)).2.2.1 rfl) ?_)
@@ -1286,7 +1389,7 @@ theorem r_while {c : Expr} {es : List Expr} {nc : Nat} (hc : FU c nc) (pc : PF c
   exact this
 
 theorem r_for {x : String} {c : Expr} {es : List Expr} {nc : Nat} (hx : ValidName x) (hc : FU c nc) (pc : PF c)
-    (tc : tailRet c = false) (hb : BlockOK es) : ∃ n, R true (.forIn (.sym x) c (.mk es)) n := by
+    (hb : BlockOK es) : ∃ n, R true (.forIn (.sym x) c (.mk es)) n := by
   obtain ⟨NB, hNB⟩ := block_ok es hb.fu hb.pf hb.adj
   refine ⟨nc + NB + 3, ?_⟩
   intro b fuel ln first i rest d toks Q _ hfu hD hfo _ ha
@@ -1296,7 +1399,7 @@ theorem r_for {x : String} {c : Expr} {es : List Expr} {nc : Nat} (hx : ValidNam
         (TItems (ln + pnl c) es ++ [tk "}" false (LItems (ln + pnl c) es + 1)])) := by
     simp only [T, printExpr, printDest, List.cons_append, List.nil_append, lexAux_tok, Bool.not_false, Bool.and_true, w,
       Bool.false_and]
-    rw [T_then pc tc]
+    rw [T_then_block0 pc]
     have := TB_eq es hb.pf (ln + pnl c) []
     simp only [List.append_nil] at this
     rw [this]
@@ -1311,7 +1414,7 @@ theorem r_for {x : String} {c : Expr} {es : List Expr} {nc : Nat} (hx : ValidNam
   have hD2 := hD1.tail
   have h2 := hD2.head
   have hD3 := hD2.tail
-  have hcond := hc f ln false (i + 1 + 1 + 1) _ d toks (by omega) hD3 (stop_lbrace tc)
+  have hcond := hc f ln false (i + 1 + 1 + 1) _ d toks (by omega) hD3 (stop_lbrace' (Nat.le_refl _))
   have hblock := hNB f (ln + pnl c) (i + 1 + 1 + 1 + (T ln false c).length) rest d toks false (by omega) hD3.skip
   refine ok_exprT' (ok_rw ((nt_kw toks (f + 1) i d _ h0 (fun t2 h2' => by
     rw [h1] at h2'; cases h2'
@@ -1340,7 +1443,7 @@ theorem r_for {x : String} {c : Expr} {es : List Expr} {nc : Nat} (hx : ValidNam
   rw [e1, e2]
   exact this
 
-theorem r_if_none {c : Expr} {es : List Expr} {nc : Nat} (hc : FU c nc) (pc : PF c) (tc : tailRet c = false)
+theorem r_if_none {c : Expr} {es : List Expr} {nc : Nat} (hc : FU c nc) (pc : PF c) 
     (hb : BlockOK es) : ∃ n, R true (.ifE c (.mk es) none) n := by
   obtain ⟨NB, hNB⟩ := block_ok es hb.fu hb.pf hb.adj
   refine ⟨nc + NB + 3, ?_⟩
@@ -1349,7 +1452,7 @@ theorem r_if_none {c : Expr} {es : List Expr} {nc : Nat} (hc : FU c nc) (pc : PF
   have hT : T ln first (.ifE c (.mk es) none) = tk "if" first ln :: (T ln false c ++
       tk "{" false (ln + pnl c) :: (TItems (ln + pnl c) es ++ [tk "}" false (LItems (ln + pnl c) es + 1)])) := by
     simp only [T, printExpr, List.cons_append, List.nil_append, lexAux_tok, Bool.not_false, Bool.and_true]
-    rw [T_then pc tc]
+    rw [T_then_block0 pc]
     have := TB_eq es hb.pf (ln + pnl c) []
     simp only [List.append_nil] at this
     rw [this]
@@ -1363,7 +1466,7 @@ theorem r_if_none {c : Expr} {es : List Expr} {nc : Nat} (hc : FU c nc) (pc : PF
   obtain ⟨s1, tl1, hT1, hbad⟩ := T_head pc ln false
   have h1 : toks[i + 1]? = some (tk s1 false ln) := by
     have := hD1.head?; rw [hT1] at this; simpa using this
-  have hcond := hc f ln false (i + 1) _ d toks (by omega) hD1 (stop_lbrace tc)
+  have hcond := hc f ln false (i + 1) _ d toks (by omega) hD1 (stop_lbrace' (Nat.le_refl _))
   have hblock := hNB f (ln + pnl c) (i + 1 + (T ln false c).length) rest d toks false (by omega) hD1.skip
   have hnext := hD1.skip.tail.skip.tail.head?
   have hnoelse : (match toks[i + 1 + (T ln false c).length + 1 + (TItems (ln + pnl c) es).length + 1]? with
@@ -1393,7 +1496,7 @@ theorem r_if_none {c : Expr} {es : List Expr} {nc : Nat} (hc : FU c nc) (pc : PF
   rw [e1, e2]
   exact this
 
-theorem r_if_some {c : Expr} {es es2 : List Expr} {nc : Nat} (hc : FU c nc) (pc : PF c) (tc : tailRet c = false)
+theorem r_if_some {c : Expr} {es es2 : List Expr} {nc : Nat} (hc : FU c nc) (pc : PF c) 
     (hb : BlockOK es) (hb2 : BlockOK es2) : ∃ n, R true (.ifE c (.mk es) (some (.mk es2))) n := by
   obtain ⟨NB, hNB⟩ := block_ok es hb.fu hb.pf hb.adj
   obtain ⟨NB2, hNB2⟩ := block_ok es2 hb2.fu hb2.pf hb2.adj
@@ -1408,7 +1511,7 @@ theorem r_if_some {c : Expr} {es es2 : List Expr} {nc : Nat} (hc : FU c nc) (pc 
         (TItems l2 es2 ++ [tk "}" false (LItems l2 es2 + 1)]))) := by
     simp only [T, printExpr, List.cons_append, List.nil_append, lexAux_tok, Bool.not_false, Bool.and_true,
       List.append_assoc]
-    rw [T_then pc tc, hl1, TB_eq es hb.pf l1, hl2]
+    rw [T_then_block pc, hl1, TB_eq es hb.pf l1, hl2]
     have := TB_eq es2 hb2.pf l2 []
     simp only [List.append_nil] at this
     simp only [List.cons_append, List.nil_append, lexAux_tok, w, Bool.false_and]
@@ -1424,7 +1527,7 @@ theorem r_if_some {c : Expr} {es es2 : List Expr} {nc : Nat} (hc : FU c nc) (pc 
   obtain ⟨s1, tl1, hT1, hbad⟩ := T_head pc ln false
   have h1 : toks[i + 1]? = some (tk s1 false ln) := by
     have := hD1.head?; rw [hT1] at this; simpa using this
-  have hcond := hc f ln false (i + 1) _ d toks (by omega) hD1 (by rw [← hl1]; exact stop_lbrace tc)
+  have hcond := hc f ln false (i + 1) _ d toks (by omega) hD1 (by rw [← hl1]; exact stop_lbrace' (Nat.le_refl _))
   have hD2 := hD1.skip
   have hblock := hNB f l1 (i + 1 + (T ln false c).length) _ d toks false (by omega) (by rw [hl2]; exact hD2)
   have hD3 := hD2.tail.skip.tail
@@ -1535,11 +1638,11 @@ theorem pf_if_some {c : Expr} {es es2 : List Expr} : PF (.ifE c (.mk es) (some (
   exact pf_kw "if" (printExpr false c ++ printBlock (.mk es) ++ [w "else"] ++ X) "}" false
     (fun first => by simp [printExpr, hX]) (by decide) rfl rfl
 
-theorem pf_binop {l r : Expr} {op : String} (pl : PF l) (pr : PF r) (tr : tailRet r = false) : PF (.binop l op r) := by
+theorem pf_binop {l r : Expr} {op : String} (pl : PF l) (pr : PF r) : PF (.binop l op r) := by
   obtain ⟨s0, tl, h1, h2⟩ := pl.hd
   refine ⟨⟨s0, tl ++ [w op] ++ printExpr false r, fun first => by simp [printExpr, h1], h2⟩, fun b first => ?_, rfl⟩
   simp only [printExpr]
-  rw [fl_append, pr.fl, tr]; rfl
+  rw [fl_append, pr.fl]; rfl
 
 /-- a statement `kw … = e` / `x = e` / `return e`: starts with a token, ends like `e` -/
 theorem pf_stmt {e' e : Expr} (pe : PF e) (k : String) (X : List PTok)
@@ -1565,14 +1668,14 @@ theorem pf_ret_none : PF (.ret none) :=
 
 theorem r_mcall {r : Expr} {m : String} {args : List Expr} {nr : Nat} (hr : R true r nr) (pr : PF r)
     (tr : tailRet r = false) (hm : ValidName m)
-    (hfu : ∀ a ∈ args, ∃ n, FU a n) (hpf : ∀ a ∈ args, PF a ∧ tailRet a = false) :
+    (hfu : ∀ a ∈ args, ∃ n, FU a n) (hpf : ∀ a ∈ args, PF a) :
     ∃ n, R true (.mcall r m args) n := by
   obtain ⟨N, hN⟩ := callArgs_ok args hfu hpf
   refine ⟨nr + N + 2, ?_⟩
   intro b fuel ln first i rest d toks Q _ hfu' hD hfo _ ha
   generalize hl1 : ln + pnl r = l1 at *
   have hT : T ln first (.mcall r m args) = T ln first r ++ tk "." true l1 :: tk m true l1 :: tk "(" true l1 ::
-      (TA l1 true args ++ [tk ")" true (l1 + pnlA args)]) := by
+      (TA l1 true args ++ [tk ")" (!flA args) (l1 + pnlA args)]) := by
     simp only [T, printExpr, List.append_assoc]
     rw [T_then pr tr, hl1]
     simp only [List.cons_append, List.nil_append, lexAux_tok, g, Bool.and_true, Bool.not_false]
@@ -1580,7 +1683,7 @@ theorem r_mcall {r : Expr} {m : String} {args : List Expr} {nr : Nat} (hr : R tr
     simp [lexAux, tk, T]
   rw [hT] at hD ha
   have hD' : D toks i (T ln first r ++ (tk "." true l1 :: tk m true l1 :: tk "(" true l1 ::
-      (TA l1 true args ++ tk ")" true (l1 + pnlA args) :: rest))) := by
+      (TA l1 true args ++ tk ")" (!flA args) (l1 + pnlA args) :: rest))) := by
     simpa [List.append_assoc] using hD
   refine hr b fuel ln first i _ d toks Q (fun h => by cases h) (by omega) hD' ?_ (fun h => by cases h) ?_
   · intro t ht; simp at ht; subst ht; simp
@@ -1593,7 +1696,7 @@ theorem r_mcall {r : Expr} {m : String} {args : List Expr} {nr : Nat} (hr : R tr
     have hD3 := hD2.tail
     have h2 := hD3.head
     have hsym := parseSymbol_ok toks (i + (T ln first r).length + 1) d _ h1 hm
-    have hca := hN k l1 (i + (T ln first r).length + 1 + 1) rest d toks true true _ _ (by omega) hD3
+    have hca := hN k l1 (i + (T ln first r).length + 1 + 1) rest d toks true _ _ _ (by omega) (Nat.le_refl _) hD3
     rw [trailing]
     oksimp
     simp only [h0, Option.map_some, TokI.text, tk_text, tk_touch, h1]
@@ -1611,10 +1714,10 @@ theorem r_mcall {r : Expr} {m : String} {args : List Expr} {nr : Nat} (hr : R tr
     have := ha ln' k (by omega)
     have x1 : max (i + (T ln first r).length) (i + (T ln first r).length + 1 + 1 + 1 + (TA l1 true args).length + 1)
         = i + (T ln first r ++ tk "." true l1 :: tk m true l1 :: tk "(" true l1 ::
-          (TA l1 true args ++ [tk ")" true (l1 + pnlA args)])).length := by simp; omega
+          (TA l1 true args ++ [tk ")" (!flA args) (l1 + pnlA args)])).length := by simp; omega
     have x2 : i + (T ln first r).length + 1 + 1 + 1 + (TA l1 true args).length + 1
         = i + (T ln first r ++ tk "." true l1 :: tk m true l1 :: tk "(" true l1 ::
-          (TA l1 true args ++ [tk ")" true (l1 + pnlA args)])).length := by simp; omega
+          (TA l1 true args ++ [tk ")" (!flA args) (l1 + pnlA args)])).length := by simp; omega
     rw [x1, x2]
     exact this
 
@@ -1632,33 +1735,34 @@ theorem TA_head {a : Expr} {r : List Expr} (pa : PF a) (ln : Nat) (first : Bool)
   | cons a2 r2 =>
     exact ⟨s0, lexAux false ln (tl ++ g "," :: printArgs false (a2 :: r2)), by simp [TA, printArgs, hp, lexAux, tk], hb⟩
 
-theorem r_list {items : List Expr} (hfu : ∀ a ∈ items, ∃ n, FU a n) (hpf : ∀ a ∈ items, PF a ∧ tailRet a = false) :
+theorem r_list {items : List Expr} (hfu : ∀ a ∈ items, ∃ n, FU a n) (hpf : ∀ a ∈ items, PF a) :
     ∃ n, R true (.list items) n := by
   obtain ⟨N, hN⟩ := comma_ok items hfu hpf
   refine ⟨N + 4, ?_⟩
   intro b fuel ln first i rest d toks Q _ hfu' hD hfo _ ha
   obtain ⟨f, rfl⟩ : ∃ f, fuel = f + 4 := ⟨fuel - 4, by omega⟩
-  have hT : T ln first (.list items) = tk "[" first ln :: (TA ln true items ++ [tk "]" true (ln + pnlA items)]) := by
+  have hT : T ln first (.list items) = tk "[" first ln :: (TA ln true items ++ [tk "]" (!flA items) (ln + pnlA items)]) := by
     simp only [T, printExpr, List.cons_append, List.nil_append, lexAux_tok, Bool.not_false, Bool.and_true]
     rw [TA_then items hpf]
     simp [lexAux, tk, g, TA]
   rw [hT] at hD ha
-  have hD0 : D toks i (tk "[" first ln :: (TA ln true items ++ (tk "]" true (ln + pnlA items) :: rest))) := by
+  have hD0 : D toks i (tk "[" first ln :: (TA ln true items ++ (tk "]" (!flA items) (ln + pnlA items) :: rest))) := by
     simpa [List.append_assoc] using hD
   have h0 := hD0.head
   have hD1 := hD0.tail
-  have hitems := hN f ln true (i + 1) rest d toks [] ln "]" true _ (by omega) (Or.inr rfl) hD1
+  have hitems := hN f ln true (i + 1) rest d toks [] ln "]" _ _ (by omega) (Or.inr rfl)
+    (by rw [(args_facts items hpf true).2]; exact Nat.le_refl _) hD1
   have hclose := hD1.skip.head
   -- the token after `[` is the first token of the first item, or `]`
   have h2 : ∀ t2, toks[i + 1]? = some t2 → t2.text ≠ "=" ∧ t2.text ≠ "+=" ∧ t2.text ≠ "-=" := by
     intro t2 ht2
     cases items with
     | nil =>
-      have hD1' : D toks (i + 1) (tk "]" true (ln + pnlA []) :: rest) := by simpa [TA, printArgs, lexAux] using hD1
+      have hD1' : D toks (i + 1) (tk "]" (!flA []) (ln + pnlA []) :: rest) := by simpa [TA, printArgs, lexAux] using hD1
       rw [hD1'.head] at ht2; cases ht2
       refine ⟨?_, ?_, ?_⟩ <;> (simp only [tk_text]; decide)
     | cons a r =>
-      obtain ⟨pa, _⟩ := hpf a (List.mem_cons_self ..)
+      have pa := hpf a (List.mem_cons_self ..)
       obtain ⟨s0, tl', htl, hb⟩ := TA_head (r := r) pa ln true
       rw [htl] at hD1
       have := hD1.head
@@ -1682,9 +1786,9 @@ theorem r_list {items : List Expr} (hfu : ∀ a ∈ items, ∃ n, FU a n) (hpf :
   simp only [List.nil_append] at hr
   simp only [hr, TokI.pos, Pos.merge, tk_line]
   have e1 : max (i + 1) (i + 1 + (lexAux false ln (printArgs true items)).length + 1)
-      = i + (tk "[" first ln :: (TA ln true items ++ [tk "]" true (ln + pnlA items)])).length := by simp [TA]; omega
+      = i + (tk "[" first ln :: (TA ln true items ++ [tk "]" (!flA items) (ln + pnlA items)])).length := by simp [TA]; omega
   have e2 : i + 1 + (lexAux false ln (printArgs true items)).length + 1
-      = i + (tk "[" first ln :: (TA ln true items ++ [tk "]" true (ln + pnlA items)])).length := by simp [TA]; omega
+      = i + (tk "[" first ln :: (TA ln true items ++ [tk "]" (!flA items) (ln + pnlA items)])).length := by simp [TA]; omega
   rw [e1, e2]
   exact this
 
@@ -1769,38 +1873,44 @@ theorem pf_str (s : String) : PF (.strLit s) :=
 /-! ### Tuple literals -/
 
 /-- tokens of `, e2, e3 …` (the part of a tuple after its first element) -/
-def TLs : Nat → List Expr → List Tok
-  | _, [] => []
-  | l, e :: r => tk "," true l :: (T l false e ++ TLs (l + pnl e) r)
+def TLs : Bool → Nat → List Expr → List Tok
+  | _, _, [] => []
+  | b, l, e :: r => tk "," (!b) l :: (T l false e ++ TLs (tailRet e) (l + pnl e) r)
 
 def LLs : Nat → List Expr → Nat
   | l, [] => l
   | l, e :: r => LLs (l + pnl e) r
 
-theorem args_tail (a : Expr) (rs : List Expr) (pa : PF a) (ta : tailRet a = false)
-    (hpf : ∀ x ∈ rs, PF x ∧ tailRet x = false) (ln : Nat) (first : Bool) (B : List PTok) :
+/-- does the text end in a newline after the last element? (`b`: did the element before?) -/
+def FLs : Bool → List Expr → Bool
+  | b, [] => b
+  | _, e :: r => FLs (tailRet e) r
+
+theorem args_tail (a : Expr) (rs : List Expr) (pa : PF a)
+    (hpf : ∀ x ∈ rs, PF x) (ln : Nat) (first : Bool) (B : List PTok) :
     lexAux false ln (printArgs first (a :: rs) ++ B) =
-      T ln first a ++ (TLs (ln + pnl a) rs ++ lexAux false (LLs (ln + pnl a) rs) B) := by
+      T ln first a ++ (TLs (tailRet a) (ln + pnl a) rs ++ lexAux (FLs (tailRet a) rs) (LLs (ln + pnl a) rs) B) := by
   induction rs generalizing a ln first with
   | nil =>
-    simp only [printArgs, TLs, LLs, List.nil_append]
-    exact T_then pa ta ln first B
+    simp only [printArgs, TLs, LLs, FLs, List.nil_append]
+    exact T_then' pa ln first B
   | cons a2 r2 ih =>
-    obtain ⟨pa2, ta2⟩ := hpf a2 (List.mem_cons_self ..)
-    have hpa : printArgs first (a :: a2 :: r2) = printExpr first a ++ ([g ","] ++ printArgs false (a2 :: r2)) := by
-      simp [printArgs]
-    rw [hpa, List.append_assoc, T_then pa ta]
-    simp only [List.cons_append, List.nil_append, List.append_assoc, lexAux_tok, g, Bool.and_true, Bool.not_false, TLs, LLs]
-    rw [ih a2 pa2 ta2 (fun x hx => hpf x (List.mem_cons_of_mem _ hx))]
+    have pa2 := hpf a2 (List.mem_cons_self ..)
+    have hpa : printArgs first (a :: a2 :: r2) = printExpr first a ++ (PTok.t "," true :: printArgs false (a2 :: r2)) := by
+      simp [printArgs, g]
+    rw [hpa, List.append_assoc, List.cons_append, T_then_g pa]
+    simp only [TLs, LLs, FLs, List.cons_append, List.append_assoc]
+    rw [ih a2 pa2 (fun x hx => hpf x (List.mem_cons_of_mem _ hx))]
 
-theorem tupleLoop_ok (rs : List Expr) (hfu : ∀ a ∈ rs, ∃ n, FU a n) (hpf : ∀ a ∈ rs, PF a ∧ tailRet a = false) :
-    ∃ N, ∀ (fuel l i : Nat) (rest : List Tok) (d : List DiagKind) (toks : Toks) (acc : List Expr) (tt : Bool) (lt : Nat),
-      N ≤ fuel → D toks i (TLs l rs ++ tk ")" tt lt :: rest) →
-      Ok (tupleLoop toks false fuel acc) ⟨i, d⟩ (fun r s' => r = acc ++ rs ∧ s' = ⟨i + (TLs l rs).length, d⟩) := by
+theorem tupleLoop_ok (rs : List Expr) (hfu : ∀ a ∈ rs, ∃ n, FU a n) (hpf : ∀ a ∈ rs, PF a) :
+    ∃ N, ∀ (fuel : Nat) (b : Bool) (l i : Nat) (rest : List Tok) (d : List DiagKind) (toks : Toks) (acc : List Expr)
+      (tt : Bool) (lt : Nat),
+      N ≤ fuel → LLs l rs ≤ lt → D toks i (TLs b l rs ++ tk ")" tt lt :: rest) →
+      Ok (tupleLoop toks false fuel acc) ⟨i, d⟩ (fun r s' => r = acc ++ rs ∧ s' = ⟨i + (TLs b l rs).length, d⟩) := by
   induction rs with
   | nil =>
     refine ⟨1, ?_⟩
-    intro fuel l i rest d toks acc tt lt hf hD
+    intro fuel b l i rest d toks acc tt lt hf _ hD
     obtain ⟨f, rfl⟩ : ∃ f, fuel = f + 1 := ⟨fuel - 1, by omega⟩
     simp only [TLs, List.nil_append] at hD ⊢
     have h0 := hD.head
@@ -1809,23 +1919,26 @@ theorem tupleLoop_ok (rs : List Expr) (hfu : ∀ a ∈ rs, ∃ n, FU a n) (hpf :
     simp [h0, ok_pure]
   | cons a r ih =>
     obtain ⟨na, hna⟩ := hfu a (List.mem_cons_self ..)
-    obtain ⟨pa, ta⟩ := hpf a (List.mem_cons_self ..)
+    have pa := hpf a (List.mem_cons_self ..)
     obtain ⟨N', hN'⟩ := ih (fun x hx => hfu x (List.mem_cons_of_mem _ hx)) (fun x hx => hpf x (List.mem_cons_of_mem _ hx))
     refine ⟨na + N' + 2, ?_⟩
-    intro fuel l i rest d toks acc tt lt hf hD
+    intro fuel b l i rest d toks acc tt lt hf hline hD
     obtain ⟨f, rfl⟩ : ∃ f, fuel = f + 1 := ⟨fuel - 1, by omega⟩
-    simp only [TLs, List.cons_append, List.append_assoc] at hD ⊢
+    simp only [TLs, LLs, List.cons_append, List.append_assoc] at hD hline ⊢
     have h0 := hD.head
     have hD1 := hD.tail
     obtain ⟨s0, tl0, hT0, hbad⟩ := T_head pa l false
     have h1 : toks[i + 1]? = some (tk s0 false l) := by
       have := hD1.head?; rw [hT0] at this; simpa using this
-    have hstop : Stop a l (TLs (l + pnl a) r ++ tk ")" tt lt :: rest) := by
+    have hstop : Stop a l (TLs (tailRet a) (l + pnl a) r ++ tk ")" tt lt :: rest) := by
       cases r with
-      | nil => simp only [TLs, List.nil_append]; exact stop_sep (Or.inr (Or.inl rfl)) ta
-      | cons a2 r2 => simp only [TLs, List.cons_append]; exact stop_sep (Or.inl rfl) ta
+      | nil =>
+        simp only [TLs, List.nil_append]
+        exact stop_sep' (Or.inr (Or.inl rfl)) (by simpa [LLs] using hline)
+      | cons a2 r2 => simp only [TLs, List.cons_append]; exact stop_sep' (Or.inl rfl) (Nat.le_refl _)
     have hres := hna f l false (i + 1) _ d toks (by omega) hD1 hstop
-    have hrec := hN' f (l + pnl a) (i + 1 + (T l false a).length) rest d toks (acc ++ [a]) tt lt (by omega) hD1.skip
+    have hrec := hN' f (tailRet a) (l + pnl a) (i + 1 + (T l false a).length) rest d toks (acc ++ [a]) tt lt (by omega)
+      hline hD1.skip
     have hpos := T_pos pa l false
     rw [tupleLoop]
     oksimp
@@ -1862,8 +1975,8 @@ theorem r_tuple_nil : R true (.tuple []) 4 := by
     simpa [TokI.pos, Pos.merge] using this
 
 /-- a tuple with at least one element: `(e,)` or `(e, e2, …)` -/
-theorem r_tuple_cons {e : Expr} {rs : List Expr} {ne : Nat} (he : FU e ne) (pe : PF e) (te : tailRet e = false)
-    (hfu : ∀ a ∈ rs, ∃ n, FU a n) (hpf : ∀ a ∈ rs, PF a ∧ tailRet a = false) :
+theorem r_tuple_cons {e : Expr} {rs : List Expr} {ne : Nat} (he : FU e ne) (pe : PF e)
+    (hfu : ∀ a ∈ rs, ∃ n, FU a n) (hpf : ∀ a ∈ rs, PF a) :
     ∃ n, R true (.tuple (e :: rs)) n := by
   obtain ⟨N, hN⟩ := tupleLoop_ok rs hfu hpf
   refine ⟨ne + N + 6, ?_⟩
@@ -1871,16 +1984,17 @@ theorem r_tuple_cons {e : Expr} {rs : List Expr} {ne : Nat} (he : FU e ne) (pe :
   obtain ⟨f, rfl⟩ : ∃ f, fuel = f + 4 := ⟨fuel - 4, by omega⟩
   obtain ⟨s1, tl1, hT1, hbad⟩ := T_head pe ln true
   -- the shape of the tokens after the first element
-  have hshape : ∃ (X : List Tok) (lc : Nat), T ln first (.tuple (e :: rs)) = tk "(" first ln :: (T ln true e ++ X ++ [tk ")" true lc]) ∧
-      (∀ (rest' : List Tok) (d' : List DiagKind) (i' : Nat), D toks i' (X ++ tk ")" true lc :: rest') →
+  have hshape : ∃ (X : List Tok) (lc : Nat) (cf : Bool),
+      T ln first (.tuple (e :: rs)) = tk "(" first ln :: (T ln true e ++ X ++ [tk ")" cf lc]) ∧
+      (∀ (rest' : List Tok) (d' : List DiagKind) (i' : Nat), D toks i' (X ++ tk ")" cf lc :: rest') →
         Ok (tupleLoop toks false f [e]) ⟨i', d'⟩ (fun r s' => r = e :: rs ∧ s' = ⟨i' + X.length, d'⟩)) ∧
-      (∃ xt, X = tk "," true (ln + pnl e) :: xt) := by
+      (∃ xf xt, X = tk "," xf (ln + pnl e) :: xt) := by
     cases rs with
     | nil =>
-      refine ⟨[tk "," true (ln + pnl e)], ln + pnl e, ?_, ?_, ⟨[], rfl⟩⟩
+      refine ⟨[tk "," (!tailRet e) (ln + pnl e)], ln + pnl e, true, ?_, ?_, ⟨_, [], rfl⟩⟩
       · simp only [T, printExpr, List.cons_append, List.nil_append, lexAux_tok, Bool.not_false, Bool.and_true]
-        rw [T_then pe te]
-        simp [lexAux, tk, g, T]
+        rw [show [g ",", g ")"] = PTok.t "," true :: [PTok.t ")" true] from rfl, T_then_g pe]
+        simp [lexAux, tk, T]
       · intro rest' d' i' hD'
         have hc := hD'.head
         have hp := hD'.tail.head
@@ -1894,27 +2008,28 @@ theorem r_tuple_cons {e : Expr} {rs : List Expr} {ne : Nat} (he : FU e ne) (pe :
         simp only [hc, hp, tk_text, beq_self_eq_true, ↓reduceIte]
         simp [ok_pure]
     | cons a2 r2 =>
-      refine ⟨TLs (ln + pnl e) (a2 :: r2), LLs (ln + pnl e) (a2 :: r2), ?_, ?_, ⟨_, rfl⟩⟩
+      refine ⟨TLs (tailRet e) (ln + pnl e) (a2 :: r2), LLs (ln + pnl e) (a2 :: r2), !FLs (tailRet e) (a2 :: r2),
+        ?_, ?_, ⟨_, _, rfl⟩⟩
       · simp only [T, printExpr, List.cons_append, List.nil_append, lexAux_tok, Bool.not_false, Bool.and_true]
-        rw [args_tail e (a2 :: r2) pe te hpf]
+        rw [args_tail e (a2 :: r2) pe hpf]
         simp [lexAux, tk, g, T]
       · intro rest' d' i' hD'
-        refine ok_mono (hN f (ln + pnl e) i' rest' d' toks [e] true _ (by omega) hD') ?_
+        refine ok_mono (hN f (tailRet e) (ln + pnl e) i' rest' d' toks [e] _ _ (by omega) (Nat.le_refl _) hD') ?_
         rintro r s' ⟨h1, h2⟩
         exact ⟨by simpa using h1, h2⟩
-  obtain ⟨X, lc, hT, hloop, ⟨xt, hX⟩⟩ := hshape
+  obtain ⟨X, lc, cf, hT, hloop, ⟨xf, xt, hX⟩⟩ := hshape
   rw [hT] at hD ha
-  have hD0 : D toks i (tk "(" first ln :: (T ln true e ++ (X ++ tk ")" true lc :: rest))) := by
+  have hD0 : D toks i (tk "(" first ln :: (T ln true e ++ (X ++ tk ")" cf lc :: rest))) := by
     simpa [List.append_assoc] using hD
   have h0 := hD0.head
   have hD1 := hD0.tail
   have h1 : toks[i + 1]? = some (tk s1 true ln) := by
     have := hD1.head?; rw [hT1] at this; simpa using this
-  have hstop : Stop e ln (X ++ tk ")" true lc :: rest) := by
-    rw [hX]; exact stop_sep (Or.inl rfl) te
+  have hstop : Stop e ln (X ++ tk ")" cf lc :: rest) := by
+    rw [hX]; exact stop_sep' (Or.inl rfl) (Nat.le_refl _)
   have hin := he f ln true (i + 1) _ d toks (by omega) hD1 hstop
   have hD2 := hD1.skip
-  have hcomma : toks[i + 1 + (T ln true e).length]? = some (tk "," true (ln + pnl e)) := by
+  have hcomma : toks[i + 1 + (T ln true e).length]? = some (tk "," xf (ln + pnl e)) := by
     have := hD2.head?; rw [hX] at this; simpa using this
   have hl := hloop rest d (i + 1 + (T ln true e).length) hD2
   have hclose := hD2.skip.head
@@ -1934,9 +2049,9 @@ theorem r_tuple_cons {e : Expr} {rs : List Expr} {ne : Nat} (he : FU e ne) (pe :
     have := ha ln (f + 3) (by omega)
     simp only [hes, TokI.pos, Pos.merge, tk_line]
     have e1 : max (i + 1) (i + 1 + (T ln true e).length + X.length + 1)
-        = i + (tk "(" first ln :: (T ln true e ++ X ++ [tk ")" true lc])).length := by simp; omega
+        = i + (tk "(" first ln :: (T ln true e ++ X ++ [tk ")" cf lc])).length := by simp; omega
     have e2 : i + 1 + (T ln true e).length + X.length + 1
-        = i + (tk "(" first ln :: (T ln true e ++ X ++ [tk ")" true lc])).length := by simp; omega
+        = i + (tk "(" first ln :: (T ln true e ++ X ++ [tk ")" cf lc])).length := by simp; omega
     rw [e1, e2]
     exact this
 
@@ -3002,7 +3117,7 @@ theorem nt_kw2 (toks : Toks) (f i : Nat) (d : List DiagKind) (t : Tok) (h0 : tok
        obtain ⟨e1, e2, e3⟩ := h2 t2 h3
        simp [bind_apply, P.bind, pure_apply, peek, peekAt, h0, h3, TokI.text, e1, e2, e3, ht])
 
-theorem r_match {s : Expr} {cases : List Case} {ns : Nat} (hs : FU s ns) (ps : PF s) (ts : tailRet s = false)
+theorem r_match {s : Expr} {cases : List Case} {ns : Nat} (hs : FU s ns) (ps : PF s)
     (hok : ∀ c ∈ cases, CaseOK c) : ∃ n, R true (.matchE s cases) n := by
   obtain ⟨NL, hNL⟩ := matchLoop_ok cases hok
   refine ⟨ns + NL + 3, ?_⟩
@@ -3013,8 +3128,7 @@ theorem r_match {s : Expr} {cases : List Case} {ns : Nat} (hs : FU s ns) (ps : P
       tk "{" false l1 :: (TCases l1 cases ++ [tk "}" false (LCases l1 cases + 1)])) := by
     simp only [T, printExpr, List.cons_append, List.nil_append, lexAux_tok, Bool.not_false, Bool.and_true,
       List.append_assoc]
-    rw [T_then ps ts, hl1]
-    rw [show (w "{" : PTok) = PTok.t "{" false from rfl, lexAux_tok]
+    rw [show (w "{" : PTok) = PTok.t "{" false from rfl, T_then_w ps, hl1]
     have := cases_tokens cases hok l1 []
     rw [this]
     simp [lexAux, T]
@@ -3027,7 +3141,7 @@ theorem r_match {s : Expr} {cases : List Case} {ns : Nat} (hs : FU s ns) (ps : P
   obtain ⟨s1, tl1, hT1, hbad⟩ := T_head ps ln false
   have h1 : toks[i + 1]? = some (tk s1 false ln) := by
     have := hD1.head?; rw [hT1] at this; simpa using this
-  have hscrut := hs f ln false (i + 1) _ d toks (by omega) hD1 (by rw [← hl1]; exact stop_lbrace ts)
+  have hscrut := hs f ln false (i + 1) _ d toks (by omega) hD1 (by rw [← hl1]; exact stop_lbrace' (Nat.le_refl _))
   have hD2 := hD1.skip
   have hbrace := hD2.head
   have hloop := hNL f l1 (i + 1 + (T ln false s).length + 1) rest d toks [] false (by omega) hD2.tail
@@ -3063,11 +3177,12 @@ theorem pf_match {s : Expr} {cases : List Case} : PF (.matchE s cases) :=
 /-! ### Struct literals -/
 
 def FieldOK : Field → Prop
-  | .mk n e => ValidName n ∧ (∃ k, FU e k) ∧ PF e ∧ tailRet e = false
+  | .mk n e => ValidName n ∧ (∃ k, FU e k) ∧ PF e
 
 def TFields : Nat → List Field → List Tok
   | _, [] => []
-  | l, .mk n e :: r => tk n false l :: tk ":" true l :: (T l false e ++ tk "," true (l + pnl e) :: TFields (l + pnl e) r)
+  | l, .mk n e :: r =>
+    tk n false l :: tk ":" true l :: (T l false e ++ tk "," (!tailRet e) (l + pnl e) :: TFields (l + pnl e) r)
 
 def LFields : Nat → List Field → Nat
   | l, [] => l
@@ -3079,10 +3194,10 @@ theorem fields_tokens (fs : List Field) (hok : ∀ x ∈ fs, FieldOK x) (l : Nat
   | nil => simp [printFields, TFields, LFields]
   | cons c r ih =>
     obtain ⟨n, e⟩ := c
-    obtain ⟨_, _, pe, te⟩ := hok _ (List.mem_cons_self ..)
+    obtain ⟨_, _, pe⟩ := hok _ (List.mem_cons_self ..)
     have ih' := ih (fun x hx => hok x (List.mem_cons_of_mem _ hx))
     simp only [printFields, List.cons_append, List.nil_append, List.append_assoc, TFields, LFields, w, g, lexAux_tok]
-    rw [T_then pe te, lexAux_tok, ih']
+    rw [T_then_g pe, ih']
     simp [tk]
 
 theorem fieldsLoop_ok (fs : List Field) (hok : ∀ x ∈ fs, FieldOK x) :
@@ -3101,7 +3216,7 @@ theorem fieldsLoop_ok (fs : List Field) (hok : ∀ x ∈ fs, FieldOK x) :
     simp [h0, ok_pure]
   | cons c r ih =>
     obtain ⟨n, e⟩ := c
-    obtain ⟨vn, ⟨ne, hne⟩, pe, te⟩ := hok _ (List.mem_cons_self ..)
+    obtain ⟨vn, ⟨ne, hne⟩, pe⟩ := hok _ (List.mem_cons_self ..)
     obtain ⟨N', hN'⟩ := ih (fun x hx => hok x (List.mem_cons_of_mem _ hx))
     refine ⟨ne + N' + 1, ?_⟩
     intro fuel l i rest d toks acc tt lc hf hD
@@ -3113,7 +3228,7 @@ theorem fieldsLoop_ok (fs : List Field) (hok : ∀ x ∈ fs, FieldOK x) :
     have hD2 := hD1.tail
     have hnp : (n == "}") = false := vn.beq_nonsym (by decide)
     have hph : PSym.isPlaceholder ⟨n, ⟨l, i + 1⟩⟩ = false := by simpa [PSym.isPlaceholder] using vn.notPh
-    have hres := hne f l false (i + 1 + 1) _ d toks (by omega) hD2 (stop_sep (Or.inl rfl) te)
+    have hres := hne f l false (i + 1 + 1) _ d toks (by omega) hD2 (stop_sep' (Or.inl rfl) (Nat.le_refl _))
     have hcomma := hD2.skip.head
     have hrec := hN' f (l + pnl e) (i + 1 + 1 + (T l false e).length + 1) rest d toks (acc ++ [Field.mk n e]) tt lc
       (by omega) hD2.skip.tail
@@ -3277,16 +3392,16 @@ theorem simple_assert (toks : Toks) (fuel i : Nat) (d : List DiagKind) (t : Tok)
   rw [parseSimple]
   simp [bind_apply, P.bind, peek, peekAt, h1, TokI.text, hx]
 
-theorem r_assert {e : Expr} {n : Nat} (he : FU e n) (pe : PF e) (te : tailRet e = false) :
+theorem r_assert {e : Expr} {n : Nat} (he : FU e n) (pe : PF e) :
     R true (.assertE e) (n + 4) := by
   intro b fuel ln first i rest d toks Q _ hfu hD hfo _ ha
   obtain ⟨f, rfl⟩ : ∃ f, fuel = f + 4 := ⟨fuel - 4, by omega⟩
-  have hT : T ln first (.assertE e) = tk "assert" first ln :: tk "(" true ln :: (T ln true e ++ [tk ")" true (ln + pnl e)]) := by
+  have hT : T ln first (.assertE e) = tk "assert" first ln :: tk "(" true ln :: (T ln true e ++ [tk ")" (!tailRet e) (ln + pnl e)]) := by
     simp only [T, printExpr, List.cons_append, List.nil_append, lexAux_tok, Bool.not_false, Bool.and_true, g]
-    rw [T_then pe te]
+    rw [T_then_g pe]
     simp [lexAux, tk, T]
   rw [hT] at hD ha
-  have hD0 : D toks i (tk "assert" first ln :: tk "(" true ln :: (T ln true e ++ (tk ")" true (ln + pnl e) :: rest))) := by
+  have hD0 : D toks i (tk "assert" first ln :: tk "(" true ln :: (T ln true e ++ (tk ")" (!tailRet e) (ln + pnl e) :: rest))) := by
     simpa [List.append_assoc] using hD
   have h0 := hD0.head
   have hD1 := hD0.tail
@@ -3295,7 +3410,7 @@ theorem r_assert {e : Expr} {n : Nat} (he : FU e n) (pe : PF e) (te : tailRet e 
   obtain ⟨s1, tl1, hT1, hbad⟩ := T_head pe ln true
   have h2 : toks[i + 1 + 1]? = some (tk s1 true ln) := by
     have := hD2.head?; rw [hT1] at this; simpa using this
-  have hin := he f ln true (i + 1 + 1) _ d toks (by omega) hD2 (stop_sep (Or.inr (Or.inl rfl)) te)
+  have hin := he f ln true (i + 1 + 1) _ d toks (by omega) hD2 (stop_sep' (Or.inr (Or.inl rfl)) (Nat.le_refl _))
   have hclose := hD2.skip.head
   refine enter_simple (f := f + 2) h0 (by simp [stmtKeywords]) (fun t2 h2' => ?_) ?_
   · rw [h1] at h2'; cases h2'; refine ⟨?_, ?_, ?_⟩ <;> (simp only [tk_text]; decide)
@@ -3311,10 +3426,10 @@ theorem r_assert {e : Expr} {n : Nat} (he : FU e n) (pe : PF e) (te : tailRet e 
     have := ha ln (f + 3) (by omega)
     simp only [hr1, TokI.pos, Pos.merge, tk_line]
     have e1 : max (i + 1) (i + 1 + 1 + (T ln true e).length + 1)
-        = i + (tk "assert" first ln :: tk "(" true ln :: (T ln true e ++ [tk ")" true (ln + pnl e)])).length := by
+        = i + (tk "assert" first ln :: tk "(" true ln :: (T ln true e ++ [tk ")" (!tailRet e) (ln + pnl e)])).length := by
       simp; omega
     have e2 : i + 1 + 1 + (T ln true e).length + 1
-        = i + (tk "assert" first ln :: tk "(" true ln :: (T ln true e ++ [tk ")" true (ln + pnl e)])).length := by
+        = i + (tk "assert" first ln :: tk "(" true ln :: (T ln true e ++ [tk ")" (!tailRet e) (ln + pnl e)])).length := by
       simp; omega
     rw [e1, e2]
     exact this
@@ -3325,12 +3440,12 @@ theorem pf_assert {e : Expr} : PF (.assertE e) :=
 /-! #### Dictionaries -/
 
 def KVOK : KV → Prop
-  | .mk k v => (∃ n, FU k n) ∧ PF k ∧ tailRet k = false ∧ (∃ n, FU v n) ∧ PF v ∧ tailRet v = false
+  | .mk k v => (∃ n, FU k n) ∧ PF k ∧ (∃ n, FU v n) ∧ PF v
 
 def TKVs : Nat → Bool → List KV → List Tok
   | _, _, [] => []
   | l, first, .mk k v :: r =>
-    T l first k ++ tk "=>" false (l + pnl k) :: (T (l + pnl k) false v ++ tk "," true (l + pnl k + pnl v) ::
+    T l first k ++ tk "=>" false (l + pnl k) :: (T (l + pnl k) false v ++ tk "," (!tailRet v) (l + pnl k + pnl v) ::
       TKVs (l + pnl k + pnl v) false r)
 
 def LKVs : Nat → List KV → Nat
@@ -3343,13 +3458,10 @@ theorem kvs_tokens (kvs : List KV) (hok : ∀ x ∈ kvs, KVOK x) (l : Nat) (firs
   | nil => simp [printKVs, TKVs, LKVs]
   | cons c r ih =>
     obtain ⟨k, v⟩ := c
-    obtain ⟨_, pk, tk', _, pv, tv⟩ := hok _ (List.mem_cons_self ..)
+    obtain ⟨_, pk, _, pv⟩ := hok _ (List.mem_cons_self ..)
     have ih' := ih (fun x hx => hok x (List.mem_cons_of_mem _ hx))
-    simp only [printKVs, List.cons_append, List.nil_append, List.append_assoc, TKVs, LKVs]
-    rw [T_then pk tk']
-    simp only [w, g, lexAux_tok]
-    rw [T_then pv tv, lexAux_tok, ih']
-    simp [tk]
+    simp only [printKVs, List.cons_append, List.nil_append, List.append_assoc, TKVs, LKVs, w, g]
+    rw [T_then_w pk, T_then_g pv, ih']
 
 theorem dictLoop_ok (kvs : List KV) (hok : ∀ x ∈ kvs, KVOK x) :
     ∃ N, ∀ (fuel l : Nat) (first : Bool) (i : Nat) (rest : List Tok) (d : List DiagKind) (toks : Toks) (acc : List KV)
@@ -3368,7 +3480,7 @@ theorem dictLoop_ok (kvs : List KV) (hok : ∀ x ∈ kvs, KVOK x) :
     simp [h0, ok_pure]
   | cons c r ih =>
     obtain ⟨k, v⟩ := c
-    obtain ⟨⟨nk, hnk⟩, pk, tk', ⟨nv, hnv⟩, pv, tv⟩ := hok _ (List.mem_cons_self ..)
+    obtain ⟨⟨nk, hnk⟩, pk, ⟨nv, hnv⟩, pv⟩ := hok _ (List.mem_cons_self ..)
     obtain ⟨N', hN'⟩ := ih (fun x hx => hok x (List.mem_cons_of_mem _ hx))
     refine ⟨nk + nv + N' + 1, ?_⟩
     intro fuel l first i rest d toks acc tt lc hf hD
@@ -3377,11 +3489,11 @@ theorem dictLoop_ok (kvs : List KV) (hok : ∀ x ∈ kvs, KVOK x) :
     obtain ⟨s0, tl0, hT0, hbad⟩ := T_head pk l first
     have h0 : toks[i]? = some (tk s0 first l) := by
       have := hD.head?; rw [hT0] at this; simpa using this
-    have hkey := hnk f l first i _ d toks (by omega) hD (stop_sep (Or.inr (Or.inr (Or.inr (Or.inr rfl)))) tk')
+    have hkey := hnk f l first i _ d toks (by omega) hD (stop_sep' (Or.inr (Or.inr (Or.inr (Or.inr rfl)))) (Nat.le_refl _))
     have hD1 := hD.skip
     have harrow := hD1.head
     have hD2 := hD1.tail
-    have hval := hnv f (l + pnl k) false (i + (T l first k).length + 1) _ d toks (by omega) hD2 (stop_sep (Or.inl rfl) tv)
+    have hval := hnv f (l + pnl k) false (i + (T l first k).length + 1) _ d toks (by omega) hD2 (stop_sep' (Or.inl rfl) (Nat.le_refl _))
     have hcomma := hD2.skip.head
     have hrec := hN' f (l + pnl k + pnl v) false (i + (T l first k).length + 1 + (T (l + pnl k) false v).length + 1)
       rest d toks (acc ++ [KV.mk k v]) tt lc (by omega) hD2.skip.tail
@@ -3518,11 +3630,11 @@ theorem TD_head {dst : LetDest} (wd : WTD dst) (ln : Nat) :
   | @destr xs _ _ => exact ⟨"(", _, TD_destr ln xs, by decide, by decide, by decide⟩
 
 theorem fu_let' {dst : LetDest} {h : Option TypeHint} {e : Expr} {n : Nat} (wd : WTD dst) (wh : WTHO h)
-    (he : FU e n) (pe : PF e) : ∃ k, FU (.letE dst h e) k := by
+    (he : FU e n) (pe : PF e) : ∃ k, FS (.letE dst h e) k := by
   obtain ⟨ND, hND⟩ := dest_ok wd
   obtain ⟨NH, hNH⟩ := hintOpt_ok wh
   refine ⟨n + ND + NH + 3, ?_⟩
-  intro fuel ln first i rest d toks hf hD hs
+  intro b fuel ln first i rest d toks hf hD hs
   obtain ⟨f, rfl⟩ : ∃ f, fuel = f + 3 := ⟨fuel - 3, by omega⟩
   have hT : T ln first (.letE dst h e) = tk "let" first ln :: (TD ln dst ++ (THO ln h ++ tk "=" false ln :: T ln false e)) := by
     simp only [T, printExpr, List.cons_append, List.nil_append, List.append_assoc, lexAux_tok, Bool.not_false, Bool.and_true]
@@ -3572,7 +3684,7 @@ theorem pf_let' {dst : LetDest} {h : Option TypeHint} {e : Expr} (pe : PF e) : P
   pf_stmt pe "let" (printDest dst ++ printHintOpt h ++ [w "="]) (fun first => by simp [printExpr]) (by decide) rfl rfl
 
 theorem r_for' {dst : LetDest} {c : Expr} {es : List Expr} {nc : Nat} (wd : WTD dst) (hc : FU c nc) (pc : PF c)
-    (tc : tailRet c = false) (hb : BlockOK es) : ∃ n, R true (.forIn dst c (.mk es)) n := by
+    (hb : BlockOK es) : ∃ n, R true (.forIn dst c (.mk es)) n := by
   obtain ⟨NB, hNB⟩ := block_ok es hb.fu hb.pf hb.adj
   obtain ⟨ND, hND⟩ := dest_ok wd
   refine ⟨nc + NB + ND + 3, ?_⟩
@@ -3584,7 +3696,7 @@ theorem r_for' {dst : LetDest} {c : Expr} {es : List Expr} {nc : Nat} (wd : WTD 
     simp only [T, printExpr, List.cons_append, List.nil_append, List.append_assoc, lexAux_tok, Bool.not_false, Bool.and_true]
     rw [lex_flat (dest_flat dst)]
     simp only [w, lexAux_tok]
-    rw [T_then pc tc]
+    rw [T_then_block0 pc]
     have := TB_eq es hb.pf (ln + pnl c) []
     simp only [List.append_nil] at this
     rw [this]
@@ -3602,7 +3714,7 @@ theorem r_for' {dst : LetDest} {c : Expr} {es : List Expr} {nc : Nat} (wd : WTD 
   have hD2 := hD1.skip
   have hin' := hD2.head
   have hD3 := hD2.tail
-  have hcond := hc f ln false _ _ d toks (by omega) hD3 (stop_lbrace tc)
+  have hcond := hc f ln false _ _ d toks (by omega) hD3 (stop_lbrace' (Nat.le_refl _))
   have hblock := hNB f (ln + pnl c) _ rest d toks false (by omega) hD3.skip
   refine ok_exprT' (ok_rw ((nt_kw toks (f + 1) i d _ h0 (fun t2 h2' => by
     rw [h1] at h2'; cases h2'; exact ⟨n1, n2, n3⟩)).2.2.2.1 rfl) ?_)
@@ -4504,12 +4616,65 @@ theorem items_roundtrip (its : List Item) (hok : ∀ it ∈ its, ItemOK it) (had
   rw [h1, h2, h3]
   simp
 
+/-- `a op s` where `a` is a chain and `s` a statement form (`let`, assignment, `return`): the last
+operator of a chain may have an open-ended right operand. -/
+theorem fu_binop_stmt {l r : Expr} {op : String} {nl nr : Nat} (hl : R false l nl) (hr : FS r nr)
+    (pl : PF l) (tl : tailRet l = false) (pr : PF r)
+    (hop : gardenBinaryOps.contains op = true) : FU (.binop l op r) (nl + nr + 3) := by
+  intro fuel ln first i rest d toks hfu hD hs
+  obtain ⟨o1, o2, o3, o4, o5, o6, o7, _, _⟩ := binop_ne hop
+  have hmem : op ∈ gardenBinaryOps := by simpa using hop
+  have oe : op ≠ "else" := by intro e; subst e; revert hop; decide
+  have hT : T ln first (.binop l op r) = T ln first l ++ tk op false (ln + pnl l) :: T (ln + pnl l) false r := by
+    simp only [T, printExpr]
+    rw [List.append_assoc, T_then pl tl]
+    simp [lexAux, tk, w, T]
+  have hpnl : pnl (.binop l op r) = pnl l + pnl r := by
+    simp only [pnl, printExpr, nlc_append]
+    simp [w, nlc]
+  rw [hT] at hD ⊢
+  have hD' : D toks i (T ln first l ++ (tk op false (ln + pnl l) :: (T (ln + pnl l) false r ++ rest))) := by
+    simpa [List.append_assoc] using hD
+  have hsr : Stop r (ln + pnl l) rest := by
+    intro t ht
+    have := hs t ht
+    rw [hpnl] at this
+    simpa [endsDot, tailRet, Nat.add_assoc] using this
+  refine hl true fuel ln first i _ d toks _ (fun _ => rfl) (by omega) hD' ?_ ?_ ?_
+  · intro t ht; simp at ht; subst ht; simp [o4, o5, o6, o7, o1, oe]
+  · intro _ t ht; simp at ht; subst ht; simp [o1, o2, o3]
+  · intro ln' fuel' hl'
+    obtain ⟨k, rfl⟩ : ∃ k, fuel' = k + 1 := ⟨fuel' - 1, by omega⟩
+    have hD1 := hD'.skip
+    have h0 := hD1.head
+    have hD2 := hD1.tail
+    rw [trailing]
+    oksimp
+    simp only [h0, Option.map_some, TokI.text, tk_text, tk_touch]
+    simp only [beq_iff_eq, o1, o2, o3, false_and, Bool.false_and, Bool.false_eq_true, ↓reduceIte, hmem, List.contains_iff_mem,
+      List.elem_eq_mem, decide_true, decide_false]
+    oksimp
+    simp only [h0]
+    refine ok_mono (hr false k (ln + pnl l) false (i + (T ln first l).length + 1) rest d toks (by omega) hD2 hsr) ?_
+    rintro rr s1 ⟨hr1, hr2, rfl⟩
+    have hpos := T_pos pr (ln + pnl l) false
+    have hlt : i + (T ln first l).length < i + (T ln first l).length + 1 + (T (ln + pnl l) false r).length := by omega
+    simp only [gt_iff_lt, hlt, ↓reduceIte, Pos.merge, hr1, hr2]
+    obtain ⟨k2, rfl⟩ : ∃ k2, k = k2 + 1 := ⟨k - 1, by omega⟩
+    have hstop := trailing_stop' toks true k2 (i + (T ln first l).length + 1 + (T (ln + pnl l) false r).length) d
+      ⟨.binop l op r, ⟨ln', max (i + (T ln first l).length) (i + (T ln first l).length + 1 + (T (ln + pnl l) false r).length)⟩⟩
+      (.binop l op r) ln rest hD2.skip hs
+    rw [ok_det hstop]
+    refine ⟨rfl, ?_, ?_⟩
+    · simp; omega
+    · simp; omega
+
 /-! ### Well-formed trees (what the grammar can express), and the round trip -/
 
-/-- Syntactic position: an operand (`closed`), an operator chain (`chain`), a complete expression
-(`full tr`; `tr` = may it end in a bare `return`, i.e. is it in statement position). -/
+/-- Syntactic position: an operand (`closed`), an operator chain (`chain`), a statement form (`stmt`:
+`let`, assignment, `return`), a complete expression (`full`). -/
 inductive Kind where
-  | closed | chain | full (tr : Bool)
+  | closed | chain | stmt | full
 
 /-- The expression trees covered by the machine-checked round trip: every constructor of `Expr` except
 `invalid` (see the header of this file for the side conditions and why they are there). -/
@@ -4519,60 +4684,65 @@ inductive WT : Kind → Expr → Prop
   | str {s : String} : WT .closed (.strLit s)
   | var {x : String} : ValidName x → WT .closed (.var x)
   | call {f : Expr} {args : List Expr} : WT .closed f → endsDot f = false →
-      (∀ a ∈ args, WT (.full false) a) → WT .closed (.call f args)
+      (∀ a ∈ args, WT .full a) → WT .closed (.call f args)
   | mcall {r : Expr} {m : String} {args : List Expr} : WT .closed r → ValidName m →
-      (∀ a ∈ args, WT (.full false) a) → WT .closed (.mcall r m args)
+      (∀ a ∈ args, WT .full a) → WT .closed (.mcall r m args)
   | dot {r : Expr} {f : String} : WT .closed r → ValidName f → WT .closed (.dot r f)
   | ns {r : Expr} {f : String} : WT .closed r → ValidName f → WT .closed (.ns r f)
-  | paren {e : Expr} : WT (.full false) e → WT .closed (.paren e)
-  | list {items : List Expr} : (∀ a ∈ items, WT (.full false) a) → WT .closed (.list items)
-  | tuple {items : List Expr} : (∀ a ∈ items, WT (.full false) a) → WT .closed (.tuple items)
-  | dict {kvs : List KV} : (∀ k v, KV.mk k v ∈ kvs → WT (.full false) k) →
-      (∀ k v, KV.mk k v ∈ kvs → WT (.full false) v) → WT .closed (.dict kvs)
+  | paren {e : Expr} : WT .full e → WT .closed (.paren e)
+  | list {items : List Expr} : (∀ a ∈ items, WT .full a) → WT .closed (.list items)
+  | tuple {items : List Expr} : (∀ a ∈ items, WT .full a) → WT .closed (.tuple items)
+  | dict {kvs : List KV} : (∀ k v, KV.mk k v ∈ kvs → WT .full k) →
+      (∀ k v, KV.mk k v ∈ kvs → WT .full v) → WT .closed (.dict kvs)
   | structLit {n : String} {fs : List Field} : ValidName n → (∀ f e, Field.mk f e ∈ fs → ValidName f) →
-      (∀ f e, Field.mk f e ∈ fs → WT (.full false) e) → WT .closed (.structLit n fs)
+      (∀ f e, Field.mk f e ∈ fs → WT .full e) → WT .closed (.structLit n fs)
   | lambda {ps : List Param} {r : Option TypeHint} {es : List Expr} : WTF [] ps r →
-      (∀ e ∈ es, WT (.full true) e) → Adj es → WT .closed (.lambda (.mk [] ps r (.mk es)))
-  | assertE {e : Expr} : WT (.full false) e → WT .closed (.assertE e)
+      (∀ e ∈ es, WT .full e) → Adj es → WT .closed (.lambda (.mk [] ps r (.mk es)))
+  | assertE {e : Expr} : WT .full e → WT .closed (.assertE e)
   | brk : WT .closed .brk
   | cont : WT .closed .cont
-  | whileE {c : Expr} {es : List Expr} : WT (.full false) c → (∀ e ∈ es, WT (.full true) e) → Adj es →
+  | whileE {c : Expr} {es : List Expr} : WT .full c → (∀ e ∈ es, WT .full e) → Adj es →
       WT .closed (.whileE c (.mk es))
-  | forIn {dst : LetDest} {c : Expr} {es : List Expr} : WTD dst → WT (.full false) c →
-      (∀ e ∈ es, WT (.full true) e) → Adj es → WT .closed (.forIn dst c (.mk es))
-  | ifNone {c : Expr} {es : List Expr} : WT (.full false) c → (∀ e ∈ es, WT (.full true) e) → Adj es →
+  | forIn {dst : LetDest} {c : Expr} {es : List Expr} : WTD dst → WT .full c →
+      (∀ e ∈ es, WT .full e) → Adj es → WT .closed (.forIn dst c (.mk es))
+  | ifNone {c : Expr} {es : List Expr} : WT .full c → (∀ e ∈ es, WT .full e) → Adj es →
       WT .closed (.ifE c (.mk es) none)
-  | ifSome {c : Expr} {es es2 : List Expr} : WT (.full false) c → (∀ e ∈ es, WT (.full true) e) → Adj es →
-      (∀ e ∈ es2, WT (.full true) e) → Adj es2 → WT .closed (.ifE c (.mk es) (some (.mk es2)))
-  | matchE {s : Expr} {cases : List Case} : WT (.full false) s →
+  | ifSome {c : Expr} {es es2 : List Expr} : WT .full c → (∀ e ∈ es, WT .full e) → Adj es →
+      (∀ e ∈ es2, WT .full e) → Adj es2 → WT .closed (.ifE c (.mk es) (some (.mk es2)))
+  | matchE {s : Expr} {cases : List Case} : WT .full s →
       (∀ p es, Case.mk p (.mk es) ∈ cases → WTPat p ∧ Adj es) →
-      (∀ p es e, Case.mk p (.mk es) ∈ cases → e ∈ es → WT (.full true) e) → WT .closed (.matchE s cases)
-  | tryE {es es2 : List Expr} {x : String} : (∀ e ∈ es, WT (.full true) e) → Adj es → ValidName x →
-      (∀ e ∈ es2, WT (.full true) e) → Adj es2 → WT .closed (.tryE (.mk es) x (.mk es2))
+      (∀ p es e, Case.mk p (.mk es) ∈ cases → e ∈ es → WT .full e) → WT .closed (.matchE s cases)
+  | tryE {es es2 : List Expr} {x : String} : (∀ e ∈ es, WT .full e) → Adj es → ValidName x →
+      (∀ e ∈ es2, WT .full e) → Adj es2 → WT .closed (.tryE (.mk es) x (.mk es2))
   | ofClosed {e : Expr} : WT .closed e → WT .chain e
   | binop {l r : Expr} {op : String} : WT .chain l → gardenBinaryOps.contains op = true → WT .closed r →
       WT .chain (.binop l op r)
-  | ofChain {e : Expr} {tr : Bool} : WT .chain e → WT (.full tr) e
-  | letE {dst : LetDest} {h : Option TypeHint} {e : Expr} {tr : Bool} : WTD dst → WTHO h → WT (.full tr) e →
-      WT (.full tr) (.letE dst h e)
-  | assign {x : String} {e : Expr} {tr : Bool} : ValidName x → WT (.full tr) e → WT (.full tr) (.assign x e)
-  | update {op x : String} {e : Expr} {tr : Bool} : (op = "+=" ∨ op = "-=") → ValidName x → WT (.full tr) e →
-      WT (.full tr) (.update op x e)
-  | retNone : WT (.full true) (.ret none)
-  | retSome {e : Expr} {tr : Bool} : WT (.full tr) e → WT (.full tr) (.ret (some e))
+  | ofChain {e : Expr} : WT .chain e → WT .full e
+  | letE {dst : LetDest} {h : Option TypeHint} {e : Expr} : WTD dst → WTHO h → WT .full e →
+      WT .stmt (.letE dst h e)
+  | assign {x : String} {e : Expr} : ValidName x → WT .full e → WT .stmt (.assign x e)
+  | update {op x : String} {e : Expr} : (op = "+=" ∨ op = "-=") → ValidName x → WT .full e →
+      WT .stmt (.update op x e)
+  | retNone : WT .stmt (.ret none)
+  | retSome {e : Expr} : WT .full e → WT .stmt (.ret (some e))
+  | ofStmt {e : Expr} : WT .stmt e → WT .full e
+  | binopStmt {l r : Expr} {op : String} : WT .chain l → gardenBinaryOps.contains op = true → WT .stmt r →
+      WT .full (.binop l op r)
 
 /-- What the induction proves for a tree in position `k`. -/
 def Goal : Kind → Expr → Prop
   | .closed, e => ∃ n, R true e n
   | .chain, e => ∃ n, R false e n
-  | .full _, e => ∃ n, FU e n
+  | .stmt, e => ∃ n, FS e n
+  | .full, e => ∃ n, FU e n
 
 def NoTail : Kind → Expr → Prop
-  | .full true, _ => True
+  | .full, _ => True
+  | .stmt, _ => True
   | _, e => tailRet e = false
 
 theorem blockOK_of {es : List Expr} (hadj : Adj es)
-    (ih : ∀ e ∈ es, PF e ∧ NoTail (.full true) e ∧ Goal (.full true) e) : BlockOK es :=
+    (ih : ∀ e ∈ es, PF e ∧ NoTail .full e ∧ Goal .full e) : BlockOK es :=
   ⟨fun e he => (ih e he).2.2, fun e he => (ih e he).1, hadj⟩
 
 theorem wt_all {k : Kind} {e : Expr} (h : WT k e) : PF e ∧ NoTail k e ∧ Goal k e := by
@@ -4583,10 +4753,10 @@ theorem wt_all {k : Kind} {e : Expr} (h : WT k e) : PF e ∧ NoTail k e ∧ Goal
   | var hx => exact ⟨pf_var hx, rfl, 3, r_var hx⟩
   | call _ hnd _ ihf iha =>
     obtain ⟨pf, tf, nf, hf⟩ := ihf
-    exact ⟨pf_call pf, rfl, r_call hf pf tf hnd (fun a ha => (iha a ha).2.2) (fun a ha => ⟨(iha a ha).1, (iha a ha).2.1⟩)⟩
+    exact ⟨pf_call pf, rfl, r_call hf pf tf hnd (fun a ha => (iha a ha).2.2) (fun a ha => (iha a ha).1)⟩
   | mcall _ hm _ ihr iha =>
     obtain ⟨pr, tr, nr, hr⟩ := ihr
-    exact ⟨pf_mcall pr, rfl, r_mcall hr pr tr hm (fun a ha => (iha a ha).2.2) (fun a ha => ⟨(iha a ha).1, (iha a ha).2.1⟩)⟩
+    exact ⟨pf_mcall pr, rfl, r_mcall hr pr tr hm (fun a ha => (iha a ha).2.2) (fun a ha => (iha a ha).1)⟩
   | dot _ hf ih =>
     obtain ⟨pr, tr, nr, hr⟩ := ih
     exact ⟨pf_dot pr, rfl, nr + 2, r_dot hr pr tr hf⟩
@@ -4595,49 +4765,49 @@ theorem wt_all {k : Kind} {e : Expr} (h : WT k e) : PF e ∧ NoTail k e ∧ Goal
     exact ⟨pf_ns pr, rfl, nr + 2, r_ns hr pr tr hf⟩
   | paren _ ih =>
     obtain ⟨pe, te, n, he⟩ := ih
-    exact ⟨pf_paren, rfl, n + 4, r_paren he pe te⟩
+    exact ⟨pf_paren, rfl, n + 4, r_paren he pe⟩
   | list _ iha =>
-    exact ⟨pf_list, rfl, r_list (fun a ha => (iha a ha).2.2) (fun a ha => ⟨(iha a ha).1, (iha a ha).2.1⟩)⟩
+    exact ⟨pf_list, rfl, r_list (fun a ha => (iha a ha).2.2) (fun a ha => (iha a ha).1)⟩
   | @tuple items _ iha =>
     refine ⟨pf_tuple, rfl, ?_⟩
     cases items with
     | nil => exact ⟨4, r_tuple_nil⟩
     | cons e rs =>
       obtain ⟨pe, te, ne, he⟩ := iha e (List.mem_cons_self ..)
-      exact r_tuple_cons he pe te (fun a ha => (iha a (List.mem_cons_of_mem _ ha)).2.2)
-        (fun a ha => ⟨(iha a (List.mem_cons_of_mem _ ha)).1, (iha a (List.mem_cons_of_mem _ ha)).2.1⟩)
+      exact r_tuple_cons he pe (fun a ha => (iha a (List.mem_cons_of_mem _ ha)).2.2)
+        (fun a ha => (iha a (List.mem_cons_of_mem _ ha)).1)
   | @dict kvs _ _ ihk ihv =>
     refine ⟨pf_dict, rfl, r_dict ?_⟩
     rintro ⟨k, v⟩ hx
     obtain ⟨pk, tk', nk⟩ := ihk k v hx
     obtain ⟨pv, tv, nv⟩ := ihv k v hx
-    exact ⟨nk, pk, tk', nv, pv, tv⟩
+    exact ⟨nk, pk, nv, pv⟩
   | @structLit n fs vn hfn _ ihe =>
     refine ⟨pf_struct vn, rfl, r_struct vn ?_⟩
     rintro ⟨f, e⟩ hx
     obtain ⟨pe, te, ne⟩ := ihe f e hx
-    exact ⟨hfn f e hx, ne, pe, te⟩
+    exact ⟨hfn f e hx, ne, pe⟩
   | lambda wf _ hadj ihb => exact ⟨pf_lambda, rfl, r_lambda wf (blockOK_of hadj ihb)⟩
   | assertE _ ih =>
     obtain ⟨pe, te, n, he⟩ := ih
-    exact ⟨pf_assert, rfl, n + 4, r_assert he pe te⟩
+    exact ⟨pf_assert, rfl, n + 4, r_assert he pe⟩
   | brk => exact ⟨pf_brk, rfl, 2, r_brk⟩
   | cont => exact ⟨pf_cont, rfl, 2, r_cont⟩
   | whileE _ _ hadj ihc ihb =>
     obtain ⟨pc, tc, nc, hc⟩ := ihc
-    exact ⟨pf_while, rfl, r_while hc pc tc (blockOK_of hadj ihb)⟩
+    exact ⟨pf_while, rfl, r_while hc pc (blockOK_of hadj ihb)⟩
   | forIn wd _ _ hadj ihc ihb =>
     obtain ⟨pc, tc, nc, hc⟩ := ihc
-    exact ⟨pf_for, rfl, r_for' wd hc pc tc (blockOK_of hadj ihb)⟩
+    exact ⟨pf_for, rfl, r_for' wd hc pc (blockOK_of hadj ihb)⟩
   | ifNone _ _ hadj ihc ihb =>
     obtain ⟨pc, tc, nc, hc⟩ := ihc
-    exact ⟨pf_if_none, rfl, r_if_none hc pc tc (blockOK_of hadj ihb)⟩
+    exact ⟨pf_if_none, rfl, r_if_none hc pc (blockOK_of hadj ihb)⟩
   | ifSome _ _ hadj _ hadj2 ihc ihb ihb2 =>
     obtain ⟨pc, tc, nc, hc⟩ := ihc
-    exact ⟨pf_if_some, rfl, r_if_some hc pc tc (blockOK_of hadj ihb) (blockOK_of hadj2 ihb2)⟩
+    exact ⟨pf_if_some, rfl, r_if_some hc pc (blockOK_of hadj ihb) (blockOK_of hadj2 ihb2)⟩
   | @matchE s cases _ hpat _ ihs ihc =>
     obtain ⟨ps, ts, ns, hs⟩ := ihs
-    refine ⟨pf_match, rfl, r_match hs ps ts ?_⟩
+    refine ⟨pf_match, rfl, r_match hs ps ?_⟩
     rintro ⟨p, ⟨es⟩⟩ hx
     exact ⟨(hpat p es hx).1, blockOK_of (hpat p es hx).2 (fun e he => ihc p es e hx he)⟩
   | tryE _ hadj vx _ hadj2 ihb ihb2 =>
@@ -4650,31 +4820,33 @@ theorem wt_all {k : Kind} {e : Expr} (h : WT k e) : PF e ∧ NoTail k e ∧ Goal
   | binop _ hop _ ihl ihr =>
     obtain ⟨pl, tl, nl, hl⟩ := ihl
     obtain ⟨pr, tr, nr, hr⟩ := ihr
-    exact ⟨pf_binop pl pr tr, rfl, nl + nr + 3, r_binop hl hr pl tl pr hop⟩
-  | @ofChain e tr _ ih =>
+    exact ⟨pf_binop pl pr, tr, nl + nr + 3, r_binop hl hr pl tl pr hop⟩
+  | @ofChain e _ ih =>
     obtain ⟨pe, te, n, he⟩ := ih
-    refine ⟨pe, ?_, n + 1, FU.of_R he⟩
-    cases tr <;> simp [NoTail] <;> exact te
-  | @letE dst h e tr wd wh _ ih =>
+    exact ⟨pe, trivial, n + 1, FU.of_R he⟩
+  | @letE dst h e wd wh _ ih =>
     obtain ⟨pe, te, n, he⟩ := ih
-    refine ⟨pf_let' pe, ?_, fu_let' wd wh he pe⟩
-    cases tr <;> simp [NoTail, tailRet] at te ⊢ <;> exact te
-  | @assign x e tr hx _ ih =>
+    exact ⟨pf_let' pe, trivial, fu_let' wd wh he pe⟩
+  | @assign x e hx _ ih =>
     obtain ⟨pe, te, n, he⟩ := ih
-    refine ⟨pf_assign hx pe, ?_, n + 3, fu_assign hx he pe⟩
-    cases tr <;> simp [NoTail, tailRet] at te ⊢ <;> exact te
-  | @update op x e tr hop hx _ ih =>
+    exact ⟨pf_assign hx pe, trivial, n + 3, fu_assign hx he pe⟩
+  | @update op x e hop hx _ ih =>
     obtain ⟨pe, te, n, he⟩ := ih
-    refine ⟨pf_update hx pe, ?_, n + 3, fu_update hop hx he pe⟩
-    cases tr <;> simp [NoTail, tailRet] at te ⊢ <;> exact te
+    exact ⟨pf_update hx pe, trivial, n + 3, fu_update hop hx he pe⟩
   | retNone => exact ⟨pf_ret_none, trivial, 3, fu_ret_none⟩
-  | @retSome e tr _ ih =>
+  | ofStmt _ ih =>
+    obtain ⟨pe, _, n, he⟩ := ih
+    exact ⟨pe, trivial, n, he.fu⟩
+  | binopStmt _ hop _ ihl ihr =>
+    obtain ⟨pl, tl, nl, hl⟩ := ihl
+    obtain ⟨pr, _, nr, hr⟩ := ihr
+    exact ⟨pf_binop pl pr, trivial, nl + nr + 3, fu_binop_stmt hl hr pl tl pr hop⟩
+  | @retSome e _ ih =>
     obtain ⟨pe, te, n, he⟩ := ih
-    refine ⟨pf_ret_some pe, ?_, n + 3, fu_ret_some he pe⟩
-    cases tr <;> simp [NoTail, tailRet] at te ⊢ <;> exact te
+    exact ⟨pf_ret_some pe, trivial, n + 3, fu_ret_some he pe⟩
 
 /-- **Round trip for complete expressions / statements.** -/
-theorem parse_print_expr {e : Expr} {tr : Bool} (h : WT (.full tr) e) :
+theorem parse_print_expr {e : Expr} (h : WT .full e) :
     ∃ n, ∀ (fuel ln : Nat) (first : Bool) (i : Nat) (rest : List Tok) (d : List DiagKind) (toks : Toks),
       n ≤ fuel → toks.drop i = lexAux false ln (printExpr first e) ++ rest → Stop e ln rest →
       ∃ r, parseExpression toks false fuel ⟨i, d⟩ = .ok r ⟨i + (lexAux false ln (printExpr first e)).length, d⟩ ∧
@@ -4685,7 +4857,7 @@ theorem parse_print_expr {e : Expr} {tr : Bool} (h : WT (.full tr) e) :
   obtain ⟨r, s', h1, h2, _, rfl⟩ := hn fuel ln first i rest d toks hf hD hs
   exact ⟨r, h1, h2⟩
 
-theorem blockOK_wt {es : List Expr} (h : ∀ e ∈ es, WT (.full true) e) (hadj : Adj es) : BlockOK es :=
+theorem blockOK_wt {es : List Expr} (h : ∀ e ∈ es, WT .full e) (hadj : Adj es) : BlockOK es :=
   blockOK_of hadj (fun e he => wt_all (h e he))
 
 /-! ### Well-formed top-level items -/
@@ -4693,21 +4865,21 @@ theorem blockOK_wt {es : List Expr} (h : ∀ e ∈ es, WT (.full true) e) (hadj 
 /-- The items covered by the round trip: every constructor of `Item`. -/
 inductive WTI : Item → Prop
   | func {pub : Bool} {name : String} {tps : List String} {ps : List Param} {r : Option TypeHint} {es : List Expr} :
-      ValidName name → WTF tps ps r → (∀ e ∈ es, WT (.full true) e) → Adj es →
+      ValidName name → WTF tps ps r → (∀ e ∈ es, WT .full e) → Adj es →
       WTI (.func pub name (.mk tps ps r (.mk es)))
   | method {pub : Bool} {name recv : String} {rh : TypeHint} {tps : List String} {ps : List Param}
       {r : Option TypeHint} {es : List Expr} :
-      ValidName name → WTF tps (⟨recv, some rh⟩ :: ps) r → (∀ e ∈ es, WT (.full true) e) → Adj es →
+      ValidName name → WTF tps (⟨recv, some rh⟩ :: ps) r → (∀ e ∈ es, WT .full e) → Adj es →
       WTI (.method pub name recv rh (.mk tps ps r (.mk es)))
-  | test {name : String} {es : List Expr} : ValidName name → (∀ e ∈ es, WT (.full true) e) → Adj es →
+  | test {name : String} {es : List Expr} : ValidName name → (∀ e ∈ es, WT .full e) → Adj es →
       WTI (.test name (.mk es))
   | enum {pub : Bool} {name : String} {tps : List String} {vs : List Variant} : ValidName name →
       (∀ x ∈ tps, ValidName x) → (∀ v ∈ vs, VariantOK v) → WTI (.enum pub name tps vs)
   | struct {pub : Bool} {name : String} {tps : List String} {fs : List StructField} : ValidName name →
       (∀ x ∈ tps, ValidName x) → (∀ f ∈ fs, SFieldOK f) → WTI (.struct pub name tps fs)
   | importI {path : String} {al : Option String} : (∀ a, al = some a → ValidName a) → WTI (.importI path al)
-  | expr {e : Expr} : WT (.full true) e → (∀ s tl, printExpr true e = PTok.t s true :: tl → s ∉ defKw) → WTI (.expr e)
-  | block {es : List Expr} : (∀ e ∈ es, WT (.full true) e) → Adj es → WTI (.block (.mk es))
+  | expr {e : Expr} : WT .full e → (∀ s tl, printExpr true e = PTok.t s true :: tl → s ∉ defKw) → WTI (.expr e)
+  | block {es : List Expr} : (∀ e ∈ es, WT .full e) → Adj es → WTI (.block (.mk es))
 
 theorem istop_sub_bad : ∀ x ∈ istopSet, x ∈ badFirst := by decide
 
@@ -4773,3 +4945,221 @@ theorem parse_print_items (its : List Item) (h : ∀ it ∈ its, WTI it) (hadj :
   items_roundtrip its (fun it hit => wti_ok (h it hit)) hadj
 
 end RT
+
+
+namespace C33
+open Parse Print ParseLemmas RT
+
+/-- **Round trip for expressions and statements.** For every well-formed tree `e` (`RT.WT`, every node
+kind) in a complete-expression position, in every token context (`toks.drop i` = the lexed canonical text of `e`
+followed by `rest`, where `rest` does not continue the expression: `RT.Stop`), for every fuel above a
+bound depending only on `e`: `parse_expression` returns exactly `e`, consumes exactly its tokens and
+emits no diagnostic. -/
+theorem parse_print_stmt {e : Expr} (h : WT .full e) :
+    ∃ n, ∀ (fuel ln : Nat) (first : Bool) (i : Nat) (rest : List Tok) (d : List DiagKind) (toks : Toks),
+      n ≤ fuel → toks.drop i = lexAux false ln (printExpr first e) ++ rest → Stop e ln rest →
+      ∃ r, parseExpression toks false fuel ⟨i, d⟩ = .ok r ⟨i + (lexAux false ln (printExpr first e)).length, d⟩ ∧
+        r.e = e :=
+  parse_print_expr h
+
+/-- The same for a whole text: index 0, nothing after, no diagnostics at all. -/
+theorem parse_print_stmt_whole {e : Expr} (h : WT .full e) :
+    ∃ n, ∀ fuel, n ≤ fuel →
+      ∃ r, parseExpression (lexOf 0 (printExpr true e)) false fuel ⟨0, []⟩ =
+        .ok r ⟨(lexOf 0 (printExpr true e)).length, []⟩ ∧ r.e = e := by
+  obtain ⟨n, hn⟩ := parse_print_stmt h
+  refine ⟨n, fun fuel hf => ?_⟩
+  have := hn fuel 0 true 0 [] [] (lexOf 0 (printExpr true e)) hf (by simp [lexOf]) (by intro t ht; simp at ht)
+  simpa [lexOf] using this
+
+/-- **Blocks**: `{`, the items each on its own line, `}` parse back to exactly the items. -/
+theorem parse_print_block (es : List Expr) (h : ∀ e ∈ es, WT .full e) (hadj : Adj es) :
+    ∃ n, ∀ (fuel ln i : Nat) (rest : List Tok) (d : List DiagKind) (toks : Toks),
+      n ≤ fuel → toks.drop i = lexAux false ln (printBlock (.mk es)) ++ rest →
+      ∃ r, parseBlock toks false fuel ⟨i, d⟩ = .ok r ⟨i + (lexAux false ln (printBlock (.mk es))).length, d⟩ ∧
+        r.exprs = es := by
+  obtain ⟨N, hN⟩ := block_ok es (fun e he => (wt_all (h e he)).2.2) (fun e he => (wt_all (h e he)).1) hadj
+  refine ⟨N, ?_⟩
+  intro fuel ln i rest d toks hf hD
+  have hTB := TB_eq es (fun e he => (wt_all (h e he)).1) ln []
+  simp only [List.append_nil, lexAux] at hTB
+  rw [hTB] at hD ⊢
+  have hD' : D toks i (tk "{" false ln :: (TItems ln es ++ tk "}" false (LItems ln es + 1) :: rest)) := by
+    simpa [D, List.append_assoc] using hD
+  obtain ⟨r, s', h1, h2, _, rfl⟩ := hN fuel ln i rest d toks false hf hD'
+  refine ⟨r, ?_, h2⟩
+  rw [h1]
+  simp
+  omega
+
+/-- **C33, main theorem (whole files, whole grammar).** For every list of well-formed top-level items (`RT.WTI`:
+functions, methods, tests, enums, structs, imports, expression items and blocks, whose expressions are
+`RT.WT` trees of any node kind) with `RT.IAdj`, for every fuel above a bound depending only on the
+items: lexing the canonical text of the items and parsing it returns exactly the items, consumes every
+token and emits no diagnostic. -/
+theorem parse_print (its : List Item) (h : ∀ it ∈ its, WTI it) (hadj : IAdj its) :
+    ∃ N, ∀ fuel, N ≤ fuel →
+      parseItems fuel (lexOf 0 (printItems its)) = .ok its ⟨(lexOf 0 (printItems its)).length, []⟩ :=
+  parse_print_items its h hadj
+
+/-! ### The hypotheses are satisfiable: a program with every item kind and most node kinds -/
+
+macro "vname" : tactic => `(tactic| exact ⟨by decide, by decide, by decide, by decide⟩)
+macro "i64" : tactic => `(tactic| exact ⟨by decide, by decide⟩)
+
+/-- ```
+import "lib.gdn" as lib
+public struct Point { x: Int, ys: List<Int>, }
+enum Opt<T> { Some(T), None, }
+public fun f<T>(a: Opt<T>, b): (Int, T) {
+  let (p, q) = (1, 2)
+  let g: Fun = fun(z: Int) { z * -2 }
+  for (i, v) in [p, q].enumerate() { continue }
+  match a { Some(x) => { return (g(p), x) }, None => { lib::fail("none\\") }, }
+  try { Point{ x: 1, ys: [], } } catch (e) { Dict["k" => 1.5, ] }
+  p + q = 1
+  g(return
+  )
+  return
+}
+method len(this: Point): Int { this.x }
+test t { assert(f(1, 2) == 3) }
+f(1, 2)
+{ break }
+``` -/
+def demo : List Item :=
+  [ .importI "lib.gdn" (some "lib"),
+    .struct true "Point" [] [⟨"x", .mk "Int" []⟩, ⟨"ys", .mk "List" [.mk "Int" []]⟩],
+    .enum false "Opt" ["T"] [⟨"Some", some (.mk "T" [])⟩, ⟨"None", none⟩],
+    .func true "f" (.mk ["T"] [⟨"a", some (.mk "Opt" [.mk "T" []])⟩, ⟨"b", none⟩]
+      (some (.mk "Tuple" [.mk "Int" [], .mk "T" []]))
+      (.mk [ .letE (.destr ["p", "q"]) none (.tuple [.intLit 1, .intLit 2]),
+             .letE (.sym "g") (some (.mk "Fun" []))
+               (.lambda (.mk [] [⟨"z", some (.mk "Int" [])⟩] none (.mk [.binop (.var "z") "*" (.intLit (-2))]))),
+             .forIn (.destr ["i", "v"]) (.mcall (.list [.var "p", .var "q"]) "enumerate" []) (.mk [.cont]),
+             .matchE (.var "a")
+               [ .mk ⟨"Some", some (.sym "x")⟩ (.mk [.ret (some (.tuple [.call (.var "g") [.var "p"], .var "x"]))]),
+                 .mk ⟨"None", none⟩ (.mk [.call (.ns (.var "lib") "fail") [.strLit "none\\"]]) ],
+             .tryE (.mk [.structLit "Point" [.mk "x" (.intLit 1), .mk "ys" (.list [])]]) "e"
+               (.mk [.dict [.mk (.strLit "k") (.floatLit "1.5")]]),
+             .binop (.var "p") "+" (.assign "q" (.intLit 1)),
+             .call (.var "g") [.ret none],
+             .ret none ])),
+    .method false "len" "this" (.mk "Point" []) (.mk [] [] (some (.mk "Int" [])) (.mk [.dot (.var "this") "x"])),
+    .test "t" (.mk [.assertE (.binop (.call (.var "f") [.intLit 1, .intLit 2]) "==" (.intLit 3))]),
+    .expr (.call (.var "f") [.intLit 1, .intLit 2]),
+    .block (.mk [.brk]) ]
+
+theorem demo_wf : (∀ it ∈ demo, WTI it) ∧ IAdj demo := by
+  have hInt : WTH (.mk "Int" []) := .named (by vname) (by decide) (by intro a ha; cases ha)
+  have hT : WTH (.mk "T" []) := .named (by vname) (by decide) (by intro a ha; cases ha)
+  have vf : ValidName "f" := by vname
+  have vp : ValidName "p" := by vname
+  have vq : ValidName "q" := by vname
+  have vg : ValidName "g" := by vname
+  have va : ValidName "a" := by vname
+  have vx : ValidName "x" := by vname
+  have cl : ∀ {e : Expr}, WT .closed e → WT .full e := fun h => .ofChain (.ofClosed h)
+  have hcall : WT .closed (.call (.var "f") [.intLit 1, .intLit 2]) := by
+    refine .call (.var vf) rfl ?_
+    intro a ha; simp at ha
+    rcases ha with rfl | rfl
+    · exact cl (.int (by i64))
+    · exact cl (.int (by i64))
+  refine ⟨?_, ?_⟩
+  · intro it hit
+    simp [demo] at hit
+    rcases hit with rfl | rfl | rfl | rfl | rfl | rfl | rfl | rfl
+    · exact .importI (by intro a ha; cases ha; vname)
+    · refine .struct (by vname) (by intro x hx; cases hx) ?_
+      intro f hf; simp at hf
+      rcases hf with rfl | rfl
+      · exact ⟨(by vname), hInt⟩
+      · exact ⟨(by vname), .named (by vname) (by decide) (by intro a ha; simp at ha; subst ha; exact hInt)⟩
+    · refine .enum (by vname) (by intro x hx; simp at hx; subst hx; vname) ?_
+      intro v hv; simp at hv
+      rcases hv with rfl | rfl
+      · exact ⟨(by vname), (by intro h hh; cases hh; exact hT)⟩
+      · exact ⟨(by vname), (by intro h hh; cases hh)⟩
+    · refine .func vf ⟨(by intro x hx; simp at hx; subst hx; vname), ?_, (by decide), ?_⟩ ?_ ?_
+      · intro p hp; simp at hp
+        rcases hp with rfl | rfl
+        · exact ⟨va, .named (by vname) (by decide) (by intro a ha; simp at ha; subst ha; exact hT)⟩
+        · exact ⟨(by vname), trivial⟩
+      · exact .tuple (by intro a ha; simp at ha; rcases ha with rfl | rfl; exact hInt; exact hT)
+      · intro e he; simp at he
+        rcases he with rfl | rfl | rfl | rfl | rfl | rfl | rfl | rfl
+        · refine .ofStmt (.letE (.destr (by intro x hx; simp at hx; rcases hx with rfl | rfl <;> vname) (by decide)) trivial
+            (cl (.tuple ?_)))
+          intro a ha; simp at ha
+          rcases ha with rfl | rfl <;> exact cl (.int (by i64))
+        · refine .ofStmt (.letE (.sym vg) (.named (by vname) (by decide) (by intro a ha; cases ha)) (cl (.lambda ?_ ?_ (by trivial))))
+          · exact ⟨(by intro x hx; cases hx), (by intro p hp; simp at hp; subst hp; exact ⟨(by vname), hInt⟩), (by decide), trivial⟩
+          · intro e he; simp at he; subst he
+            exact .ofChain (.binop (.ofClosed (.var (by vname))) (by decide) (.int (by i64)))
+        · refine cl (.forIn (.destr (by intro x hx; simp at hx; rcases hx with rfl | rfl <;> vname) (by decide))
+            (cl (.mcall (.list ?_) (by vname) (by intro a ha; cases ha))) ?_ (by trivial))
+          · intro a ha; simp at ha
+            rcases ha with rfl | rfl
+            · exact cl (.var vp)
+            · exact cl (.var vq)
+          · intro e he; simp at he; subst he; exact cl .cont
+        · refine cl (.matchE (cl (.var va)) ?_ ?_)
+          · intro p es hc; simp at hc
+            rcases hc with ⟨rfl, rfl⟩ | ⟨rfl, rfl⟩
+            · exact ⟨⟨(by vname), (by intro d hd; cases hd; exact .sym vx)⟩, trivial⟩
+            · exact ⟨⟨(by vname), (by intro d hd; cases hd)⟩, trivial⟩
+          · intro p es e hc he; simp at hc
+            rcases hc with ⟨rfl, rfl⟩ | ⟨rfl, rfl⟩
+            · simp at he; subst he
+              refine .ofStmt (.retSome (cl (.tuple ?_)))
+              intro a ha; simp at ha
+              rcases ha with rfl | rfl
+              · refine cl (.call (.var vg) rfl ?_)
+                intro a ha; simp at ha; subst ha; exact cl (.var vp)
+              · exact cl (.var vx)
+            · simp at he; subst he
+              refine cl (.call (.ns (.var (by vname)) (by vname)) rfl ?_)
+              intro a ha; simp at ha; subst ha; exact cl .str
+        · refine cl (.tryE ?_ (by trivial) (by vname) ?_ (by trivial))
+          · intro e he; simp at he; subst he
+            refine cl (.structLit (by vname) ?_ ?_)
+            · intro f e hf; simp at hf
+              rcases hf with ⟨rfl, rfl⟩ | ⟨rfl, rfl⟩ <;> vname
+            · intro f e hf; simp at hf
+              rcases hf with ⟨rfl, rfl⟩ | ⟨rfl, rfl⟩
+              · exact cl (.int (by i64))
+              · exact cl (.list (by intro a ha; cases ha))
+          · intro e he; simp at he; subst he
+            refine cl (.dict ?_ ?_)
+            · intro k v hk; simp at hk; obtain ⟨rfl, rfl⟩ := hk; exact cl .str
+            · intro k v hk; simp at hk; obtain ⟨rfl, rfl⟩ := hk
+              exact cl (.float ⟨by decide, by decide, by decide, by decide, by decide⟩)
+        · exact .binopStmt (.ofClosed (.var vp)) (by decide) (.assign vq (cl (.int (by i64))))
+        · refine cl (.call (.var vg) rfl ?_)
+          intro a ha; simp at ha; subst ha; exact .ofStmt .retNone
+        · exact .ofStmt .retNone
+      · simp [Adj, endsDot]
+    · refine .method (by vname) ⟨(by intro x hx; cases hx), ?_, (by decide), hInt⟩ ?_ (by trivial)
+      · intro p hp; simp at hp; subst hp
+        exact ⟨(by vname), .named (by vname) (by decide) (by intro a ha; cases ha)⟩
+      · intro e he; simp at he; subst he
+        exact cl (.dot (.var (by vname)) vx)
+    · refine .test (by vname) ?_ (by trivial)
+      intro e he; simp at he; subst he
+      exact cl (.assertE (.ofChain (.binop (.ofClosed hcall) (by decide) (.int (by i64)))))
+    · refine .expr (cl hcall) ?_
+      intro s tl hs
+      simp [printExpr] at hs
+      obtain ⟨rfl, _⟩ := hs
+      decide
+    · refine .block ?_ (by trivial)
+      intro e he; simp at he; subst he; exact cl .brk
+  · simp [demo, IAdj, endsDot]
+
+/-- The canonical text of `demo` parses back to `demo` (instance of the main theorem). -/
+theorem demo_roundtrip : ∃ N, ∀ fuel, N ≤ fuel →
+    parseItems fuel (lexOf 0 (printItems demo)) = .ok demo ⟨(lexOf 0 (printItems demo)).length, []⟩ :=
+  parse_print demo demo_wf.1 demo_wf.2
+
+end C33
